@@ -1,5 +1,5 @@
 (* Proofs/StatsProofs.v -- lemmas behind Properties/C19.v *)
-From Coq Require Import List NArith Bool Lia ZifyBool ZifyN PeanoNat.
+From Coq Require Import List NArith Bool Lia ZifyBool ZifyN PeanoNat Permutation.
 From Verif Require Import Base.Str Base.StrFacts Model.Stats.
 Import ListNotations.
 Open Scope N_scope.
@@ -216,55 +216,6 @@ Proof.
     assert (y = x) by lia. subst. contradiction.
   - replace (a =? x) with false by lia. cbn [orb]. rewrite IHl by assumption. lia.
 Qed.
-
-Lemma overlap_sorted r l : ssorted l -> N.of_nat (length l) < u32_mod ->
-  overlap_len r l = cnt (in_range r) l.
-Proof.
-  intros S B. destruct r as [x|s e]; cbn [overlap_len].
-  - unfold bsearch_ok. rewrite existsb_eqb_cnt by (apply ssorted_NoDup; assumption). reflexivity.
-  - rewrite pp_lt_sorted, pp_le_sorted by assumption. rewrite sat_sub_spec.
-    pose proof (cnt_le_length (fun x => x <=? e) l) as B2.
-    rewrite as_u32_small by lia.
-    destruct (N.le_gt_cases s e) as [L|L].
-    + rewrite (cnt_range_split s e l L). lia.
-    + destruct (cnt_range_empty s e l L) as [I1 I2]. rewrite I2. lia.
-Qed.
-
-(* ------------------------------------------------------------------ disjoint ranges *)
-
-Lemma ranges_disjoint_spec r1 r2 x :
-  ranges_disjoint r1 r2 = true -> in_range r1 x = true -> in_range r2 x = false.
-Proof.
-  unfold ranges_disjoint. destruct r1, r2; cbn [range_lo range_hi in_range]; lia.
-Qed.
-
-Lemma existsb_false_forall {A} (p : A -> bool) l : (forall x, In x l -> p x = false) -> existsb p l = false.
-Proof.
-  induction l; [reflexivity|]. intros H. cbn [existsb]. rewrite (H a) by (left; reflexivity).
-  apply IHl. intros. apply H. right. assumption.
-Qed.
-
-Lemma disjoint_sum_cnt rs l : pairwise ranges_disjoint rs = true ->
-  sumN (fun r => cnt (in_range r) l) rs = cnt (fun x => existsb (fun r => in_range r x) rs) l.
-Proof.
-  induction rs; intros P.
-  - cbn [sumN fold_right existsb]. symmetry. apply cnt_none. reflexivity.
-  - cbn [pairwise] in P. apply andb_true_iff in P. destruct P as [P1 P2].
-    rewrite sumN_cons, IHrs by assumption. cbn [existsb].
-    rewrite (cnt_or (in_range a) (fun x => existsb (fun r => in_range r x) rs)); [reflexivity|].
-    intros x Hx. apply existsb_false_forall. intros r Hr.
-    rewrite forallb_forall in P1. apply (ranges_disjoint_spec a r x (P1 r Hr) Hx).
-Qed.
-
-Lemma existsb_flat_map {A B} (p : B -> bool) (g : A -> list B) l :
-  existsb p (flat_map g l) = existsb (fun a => existsb p (g a)) l.
-Proof.
-  induction l; [reflexivity|]. cbn [flat_map existsb]. rewrite existsb_app, IHl. reflexivity.
-Qed.
-
-Lemma ai_line_all_ranges es x : ai_line es x = existsb (fun r => in_range r x) (all_ranges es).
-Proof. unfold ai_line, all_ranges. rewrite existsb_flat_map. reflexivity. Qed.
-
 (* ------------------------------------------------------------------ folds *)
 
 Lemma fold_res_inv {A B} (P : A -> Prop) (f : A -> B -> sres A) l :
@@ -372,110 +323,478 @@ Proof.
         -- apply HP. apply in_app_iff. right. right. assumption.
 Qed.
 
+
+(* ------------------------------------------------------------------ line_range_overlap on a sorted list *)
+
+Lemma filter_all {A} (p : A -> bool) l : (forall x, In x l -> p x = true) -> filter p l = l.
+Proof.
+  induction l; [reflexivity|]. intros H. cbn [filter]. rewrite (H a) by (left; reflexivity).
+  f_equal. apply IHl. intros. apply H. right. assumption.
+Qed.
+
+Lemma filter_none {A} (p : A -> bool) l : (forall x, In x l -> p x = false) -> filter p l = [].
+Proof.
+  induction l; [reflexivity|]. intros H. cbn [filter]. rewrite (H a) by (left; reflexivity).
+  apply IHl. intros. apply H. right. assumption.
+Qed.
+
+Lemma filter_filter {A} (p q : A -> bool) l : filter p (filter q l) = filter (fun x => q x && p x) l.
+Proof.
+  induction l; [reflexivity|]. cbn [filter]. destruct (q a); cbn [filter andb]; [destruct (p a)|]; rewrite IHl; reflexivity.
+Qed.
+
+Lemma ssorted_filter p l : ssorted l -> ssorted (filter p l).
+Proof.
+  induction l; [trivial|]. intros [H1 H2]. cbn [filter]. destruct (p a); cbn [ssorted]; [|auto].
+  split; [|auto]. intros y Hy. apply filter_In in Hy. apply H1. tauto.
+Qed.
+
+Lemma skipn_pp_lt s l : ssorted l ->
+  skipn (N.to_nat (partition_point (fun x => x <? s) l)) l = filter (fun x => s <=? x) l.
+Proof.
+  induction l; intros S; [reflexivity|]. destruct S as [H1 H2]. cbn [partition_point filter].
+  destruct (a <? s) eqn:E.
+  - replace (N.to_nat (1 + partition_point (fun x => x <? s) l))
+      with (S (N.to_nat (partition_point (fun x => x <? s) l))) by lia.
+    cbn [skipn]. rewrite IHl by assumption. replace (s <=? a) with false by lia. reflexivity.
+  - change (N.to_nat 0) with 0%nat. cbn [skipn]. replace (s <=? a) with true by lia. f_equal.
+    symmetry. apply filter_all. intros y Hy. specialize (H1 y Hy). lia.
+Qed.
+
+Lemma firstn_filter_le e l : ssorted l ->
+  firstn (length (filter (fun x => x <=? e) l)) l = filter (fun x => x <=? e) l.
+Proof.
+  induction l; intros S; [reflexivity|]. destruct S as [H1 H2]. cbn [filter]. destruct (a <=? e) eqn:E.
+  - cbn [length firstn]. rewrite IHl by assumption. reflexivity.
+  - rewrite filter_none; [reflexivity|]. intros y Hy. specialize (H1 y Hy). lia.
+Qed.
+
+Lemma filter_eq_single x l : NoDup l ->
+  filter (fun y => y =? x) l = if existsb (N.eqb x) l then [x] else [].
+Proof.
+  induction l; intros ND; [reflexivity|]. inversion ND as [|? ? NI ND']. subst. cbn [filter existsb].
+  destruct (a =? x) eqn:E.
+  - assert (a = x) by lia. subst a. replace (x =? x) with true by lia. cbn [orb].
+    rewrite filter_none; [reflexivity|]. intros y Hy. destruct (y =? x) eqn:E'; [|reflexivity].
+    assert (y = x) by lia. subst. contradiction.
+  - replace (x =? a) with false by lia. cbn [orb]. apply IHl. assumption.
+Qed.
+
+Lemma overlap_sorted r l : ssorted l -> line_range_overlap r l = filter (in_range r) l.
+Proof.
+  intros S. destruct r as [x|s e]; cbn [line_range_overlap].
+  - unfold bsearch_ok. rewrite <- filter_eq_single by (apply ssorted_NoDup; assumption).
+    apply filter_ext. reflexivity.
+  - replace (filter (in_range (Range s e)) l) with (filter (fun x => x <=? e) (filter (fun x => s <=? x) l))
+      by (rewrite filter_filter; apply filter_ext; reflexivity).
+    assert (cnt (in_range (Range s e)) l = N.of_nat (length (filter (fun x => x <=? e) (filter (fun x => s <=? x) l)))) as CE.
+    { unfold cnt. rewrite filter_filter. reflexivity. }
+    unfold slice. rewrite skipn_pp_lt by assumption. rewrite pp_lt_sorted, pp_le_sorted by assumption.
+    destruct (N.le_gt_cases s e) as [L|L].
+    + rewrite (cnt_range_split s e l L).
+      replace (N.max (cnt (fun x => x <? s) l + cnt (in_range (Range s e)) l) (cnt (fun x => x <? s) l)
+               - cnt (fun x => x <? s) l) with (cnt (in_range (Range s e)) l) by lia.
+      rewrite CE, Nat2N.id. apply firstn_filter_le. apply ssorted_filter. assumption.
+    + destruct (cnt_range_empty s e l L) as [I1 I2].
+      replace (N.max (cnt (fun x => x <=? e) l) (cnt (fun x => x <? s) l) - cnt (fun x => x <? s) l) with 0 by lia.
+      change (N.to_nat 0) with 0%nat. cbn [firstn]. symmetry.
+      apply length_zero_iff_nil. lia.
+Qed.
+
+Lemma overlap_In r l y : ssorted l -> In y (line_range_overlap r l) <-> In y l /\ in_range r y = true.
+Proof. intros S. rewrite overlap_sorted by assumption. apply filter_In. Qed.
+
+(* ------------------------------------------------------------------ counting lines once *)
+
+Definition ai_entry (e : entry) (x : N) : bool := existsb (fun r => in_range r x) (e_ranges e).
+
+Lemma existsb_eqb_In x C : existsb (N.eqb x) C = true <-> In x C.
+Proof.
+  rewrite existsb_exists. split.
+  - intros (y & Hy & E). apply N.eqb_eq in E. subst. assumption.
+  - intros H. exists x. split; [assumption|apply N.eqb_refl].
+Qed.
+
+Section Count.
+  Variable m : ovf.
+  Variable ls : list N.
+  Variable c0 : N.
+  Hypothesis Hfit : N.of_nat (length ls) <= u32_max.
+
+  (* (counted, accepted) during one entry: counted is a duplicate-free part of the file's added
+     lines and accepted is the number of lines counted since the entry started *)
+  Definition cinv (st : list N * N) : Prop :=
+    NoDup (fst st) /\ incl (fst st) ls /\ N.of_nat (length (fst st)) = c0 + snd st.
+
+  Lemma count_line_fwd st x : cinv st -> In x ls ->
+    exists st', count_line m st x = SOk st' /\ cinv st' /\ (forall y, In y (fst st') <-> In y (fst st) \/ y = x).
+  Proof.
+    intros (ND & IN & LEN) Hx. unfold count_line. destruct (existsb (N.eqb x) (fst st)) eqn:E.
+    - exists st. split; [reflexivity|]. split; [repeat split; assumption|].
+      apply existsb_eqb_In in E. intros y. split; [tauto|]. intros [H|H]; [assumption|subst; assumption].
+    - assert (~ In x (fst st)) as NI by (rewrite <- existsb_eqb_In; congruence).
+      assert (NoDup (x :: fst st)) as ND' by (constructor; assumption).
+      assert (incl (x :: fst st) ls) as IN' by (intros y [Hy|Hy]; [subst; assumption|apply IN; assumption]).
+      pose proof (NoDup_incl_length ND' IN') as LE. cbn [length] in LE.
+      rewrite uadd_small by lia. cbn [sbind]. exists (x :: fst st, snd st + 1). split; [reflexivity|].
+      split; [repeat split; cbn [fst snd length]; try assumption; lia|].
+      cbn [fst In]. intros y. split; [intros [H|H]; [right; congruence|left; assumption]|].
+      intros [H|H]; [right; assumption|left; congruence].
+  Qed.
+
+  Lemma count_lines_fwd xs : forall st, cinv st -> (forall x, In x xs -> In x ls) ->
+    exists st', fold_res (count_line m) xs st = SOk st' /\ cinv st' /\
+                (forall y, In y (fst st') <-> In y (fst st) \/ In y xs).
+  Proof.
+    induction xs as [|x xs]; intros st I H; cbn [fold_res].
+    - exists st. split; [reflexivity|]. split; [assumption|]. intros y. cbn [In]. tauto.
+    - destruct (count_line_fwd st x I (H x (or_introl eq_refl))) as (st1 & E1 & I1 & M1).
+      rewrite E1. cbn [sbind].
+      destruct (IHxs st1 I1 (fun y Hy => H y (or_intror Hy))) as (st2 & E2 & I2 & M2).
+      exists st2. split; [assumption|]. split; [assumption|]. intros y. rewrite M2, M1. cbn [In].
+      split; [intros [[?|?]|?]|intros [?|[?|?]]]; auto.
+  Qed.
+
+  Hypothesis Hsorted : ssorted ls.
+
+  Lemma count_ranges_fwd rs : forall st, cinv st ->
+    exists st', fold_res (count_range m ls) rs st = SOk st' /\ cinv st' /\
+                (forall y, In y (fst st') <-> In y (fst st) \/ (In y ls /\ existsb (fun r => in_range r y) rs = true)).
+  Proof.
+    induction rs as [|r rs]; intros st I; cbn [fold_res].
+    - exists st. split; [reflexivity|]. split; [assumption|]. intros y. cbn [existsb]. intuition discriminate.
+    - unfold count_range at 1.
+      destruct (count_lines_fwd (line_range_overlap r ls) st I) as (st1 & E1 & I1 & M1).
+      { intros x Hx. apply overlap_In in Hx; tauto. }
+      rewrite E1. cbn [sbind]. destruct (IHrs st1 I1) as (st2 & E2 & I2 & M2).
+      exists st2. split; [assumption|]. split; [assumption|]. intros y. rewrite M2, M1.
+      rewrite overlap_In by assumption. cbn [existsb]. rewrite orb_true_iff. tauto.
+  Qed.
+End Count.
+
+Lemma entry_accepted_fwd m ls C e : ssorted ls -> N.of_nat (length ls) <= u32_max -> NoDup C -> incl C ls ->
+  exists C' a, entry_accepted m ls C e = SOk (C', a) /\ NoDup C' /\ incl C' ls /\
+    N.of_nat (length C') = N.of_nat (length C) + a /\
+    (forall y, In y C' <-> In y C \/ (In y ls /\ ai_entry e y = true)).
+Proof.
+  intros S F ND IN. unfold entry_accepted.
+  destruct (count_ranges_fwd m ls (N.of_nat (length C)) F S (e_ranges e) (C, 0)) as ([C' a] & E & (I1 & I2 & I3) & M).
+  { repeat split; cbn [fst snd]; try assumption. lia. }
+  exists C', a. cbn [fst snd] in *. repeat split; try assumption; apply M.
+Qed.
+
+(* ------------------------------------------------------------------ maps: forward facts *)
+
+Definition lookup_or {V} (d : V) (k : str) (m : list (str * V)) : V :=
+  match lookup k m with Some c => c | None => d end.
+
+Lemma in_keys {V} (m : list (str * V)) p : In p (keys m) <-> exists C, In (p, C) m.
+Proof.
+  unfold keys. rewrite in_map_iff. split.
+  - intros ([p' C] & E & H). cbn in E. subst. exists C. assumption.
+  - intros (C & H). exists (p, C). split; [reflexivity|assumption].
+Qed.
+
+(* an update whose function cannot fail *)
+Lemma map_upd_fun {V} (d : V) k (g : V -> V) m : NoDup (keys m) ->
+  exists m', map_upd d k (fun v => SOk (g v)) m = SOk m' /\
+    NoDup (keys m') /\ In k (keys m') /\
+    (forall p C, In (p, C) m' <-> (p = k /\ C = g (lookup_or d k m)) \/ (p <> k /\ In (p, C) m)) /\
+    (forall h : V -> N, h d = 0 -> sumv h m' + h (lookup_or d k m) = sumv h m + h (g (lookup_or d k m)) /\
+                                  h (lookup_or d k m) <= sumv h m).
+Proof.
+  unfold lookup_or. induction m as [|[k' v] m]; intros ND; cbn [map_upd lookup sbind].
+  - exists [(k, g d)]. split; [reflexivity|]. split; [repeat constructor; intros []|].
+    split; [left; reflexivity|]. split.
+    + intros p C. cbn [In]. split.
+      * intros [E|[]]. inversion E. left. split; reflexivity.
+      * intros [[-> ->]|[_ []]]. left. reflexivity.
+    + intros h Hd. rewrite sumv_cons, !sumv_nil. cbn [snd]. lia.
+  - cbn [keys map fst] in ND. inversion ND as [|? ? NI ND']. subst.
+    destruct (str_eqb k k') eqn:K.
+    + apply str_eqb_eq in K. subst k'. cbn [sbind]. exists ((k, g v) :: m). split; [reflexivity|].
+      split; [exact ND|]. split; [left; reflexivity|]. split.
+      * intros p C. cbn [In]. split.
+        -- intros [E|H]; [inversion E; left; split; reflexivity|]. right. split; [|right; assumption].
+           intros ->. apply NI. apply in_keys. exists C. assumption.
+        -- intros [[-> ->]|[NE [E|H]]]; [left; reflexivity| |right; assumption].
+           inversion E. subst. contradiction.
+      * intros h Hd. rewrite !sumv_cons. cbn [snd]. lia.
+    + destruct (IHm ND') as (m' & E & N1 & N2 & M & S). rewrite E. cbn [sbind].
+      exists ((k', v) :: m'). split; [reflexivity|].
+      assert (k <> k') as NE by (intros ->; rewrite str_eqb_refl in K; discriminate).
+      split.
+      { cbn [keys map fst]. constructor; [|exact N1]. intros Hin. apply in_keys in Hin. destruct Hin as (C & HC).
+        apply M in HC. destruct HC as [[-> _]|[_ HC]]; [congruence|]. apply NI. apply in_keys. exists C. assumption. }
+      split; [right; exact N2|]. split.
+      * intros p C. cbn [In]. rewrite M. split.
+        -- intros [E'|[H|[H1 H2]]]; [inversion E'; subst; right; split; [congruence|left; reflexivity]|left; exact H|].
+           right. split; [assumption|right; assumption].
+        -- intros [H|[H1 [E'|H2]]]; [right; left; exact H|left; exact E'|right; right; split; assumption].
+      * intros h Hd. destruct (S h Hd) as [S1 S2]. rewrite !sumv_cons. cbn [snd]. lia.
+Qed.
+
+(* an update whose function succeeds on every value it can meet *)
+Lemma map_upd_same {V} (d : V) k (f : V -> sres V) (g : V -> V) m :
+  f d = SOk (g d) -> (forall kv, In kv m -> f (snd kv) = SOk (g (snd kv))) ->
+  map_upd d k f m = map_upd d k (fun v => SOk (g v)) m.
+Proof.
+  intros Hd. induction m as [|[k' v] m]; intros H; cbn [map_upd].
+  - rewrite Hd. reflexivity.
+  - destruct (str_eqb k k').
+    + pose proof (H (k', v) (or_introl eq_refl)) as E. cbn [snd] in E. rewrite E. reflexivity.
+    + rewrite IHm; [reflexivity|]. intros. apply H. right. assumption.
+Qed.
+
+Lemma lookup_NoDup {V} k v (m : list (str * V)) : NoDup (keys m) -> In (k, v) m -> lookup k m = Some v.
+Proof.
+  induction m as [|[k' v'] m]; intros ND Hin; [destruct Hin|]. cbn [keys map fst] in ND.
+  inversion ND as [|? ? NI ND']. subst. cbn [lookup]. destruct Hin as [E|Hin].
+  - inversion E. subst. rewrite str_eqb_refl. reflexivity.
+  - destruct (str_eqb k k') eqn:K; [|apply IHm; assumption].
+    apply str_eqb_eq in K. subst. exfalso. apply NI. apply in_keys. exists v. assumption.
+Qed.
+
 (* ------------------------------------------------------------------ accepted_from_attestations *)
 
-Definition entry_pure (ls : list N) (e : entry) : N := sumN (fun r => overlap_len r ls) (e_ranges e).
-Definition file_pure (ls : list N) (es : list entry) : N := sumN (entry_pure ls) es.
-Definition fatt_pure (added : list (str * list N)) (fa : fatt) : N :=
-  match lookup (f_path fa) added with Some ls => file_pure ls (f_entries fa) | None => 0 end.
-Definition atts_pure (added : list (str * list N)) (atts : list fatt) : N := sumN (fatt_pure added) atts.
-
 Definition idN (x : N) : N := x.
-(* the per-tool map accounts for the whole total *)
-Definition J (st : N * list (str * N)) : Prop := sumv idN (snd st) = fst st /\ NoDup (keys (snd st)).
+Definition lenN (C : list N) : N := N.of_nat (length C).
+Definition size (cm : list (str * list N)) : N := sumv lenN cm.
+Definition lines_in (cm : list (str * list N)) (p : str) (x : N) : Prop := exists C, In (p, C) cm /\ In x C.
+Definition InA (added : list (str * list N)) (p : str) (x : N) : Prop :=
+  exists ls, lookup p added = Some ls /\ In x ls.
+Definition total_len (added : list (str * list N)) : N := sumv lenN added.
 
 Definition has_prompt (prompts : list (str * prompt)) (e : entry) : bool :=
   match lookup (e_hash e) prompts with Some _ => true | None => false end.
 
-Lemma entry_accepted_spec m ls e a : entry_accepted m ls e = SOk a -> entry_pure ls e <= u32_max ->
-  a = entry_pure ls e.
+(* the structural part of the invariant on counted_by_file *)
+Definition cm_ok (added : list (str * list N)) (cm : list (str * list N)) : Prop :=
+  NoDup (keys cm) /\ (forall p C, In (p, C) cm -> NoDup C) /\ (forall p x, lines_in cm p x -> InA added p x).
+
+Definition flat (cm : list (str * list N)) : list (str * N) :=
+  flat_map (fun kv => map (pair (fst kv)) (snd kv)) cm.
+
+Lemma flat_In cm p x : In (p, x) (flat cm) <-> lines_in cm p x.
 Proof.
-  unfold entry_accepted, entry_pure. intros H B. apply fold_uadd in H; lia.
+  unfold flat, lines_in. rewrite in_flat_map. split.
+  - intros ([q C] & H1 & H2). cbn [fst snd] in H2. apply in_map_iff in H2. destruct H2 as (y & E & Hy).
+    inversion E. subst. exists C. split; assumption.
+  - intros (C & H1 & H2). exists (p, C). split; [assumption|]. cbn [fst snd]. apply in_map_iff.
+    exists x. split; [reflexivity|assumption].
 Qed.
 
-Lemma entry_step_spec m prompts ls st e st' :
-  entry_step m prompts ls st e = SOk st' -> fst st + entry_pure ls e <= u32_max ->
-  fst st' = fst st + entry_pure ls e /\ (has_prompt prompts e = true -> J st -> J st').
+Lemma flat_length cm : N.of_nat (length (flat cm)) = size cm.
 Proof.
-  unfold entry_step. intros H B.
-  destruct (entry_accepted m ls e) eqn:EA; cbn [sbind] in H; [|discriminate].
-  apply entry_accepted_spec in EA; [|lia]. subst a.
-  destruct (entry_pure ls e =? 0) eqn:Z.
-  - inversion H. subst. split; [lia|tauto].
-  - destruct (uadd m (fst st) (entry_pure ls e)) eqn:U; cbn [sbind] in H; [|discriminate].
-    apply uadd_ok in U; [|assumption]. subst a.
-    unfold has_prompt. destruct (lookup (e_hash e) prompts) as [p|].
-    + destruct (map_upd 0 (tool_key p) (fun v => uadd m v (entry_pure ls e)) (snd st)) eqn:MU;
-        cbn [sbind] in H; [|discriminate]. inversion H. subst. cbn [fst snd]. split; [reflexivity|].
-      intros _ [J1 J2]. destruct (map_upd_facts _ _ _ _ _ MU) as (v & v' & Hf & Hs & Hk & _).
-      destruct (Hs idN eq_refl) as [S1 S2]. change (idN v) with v in *. change (idN v') with v' in *.
-      cbn [fst snd] in *. apply uadd_ok in Hf; [|lia]. unfold J. cbn [fst snd]. split; [|apply Hk; assumption]. lia.
-    + inversion H. subst. cbn [fst snd]. split; [reflexivity|discriminate].
+  unfold flat, size. induction cm as [|[p C] cm]; [reflexivity|]. cbn [flat_map fst snd].
+  rewrite app_length, map_length, sumv_cons. cbn [snd]. unfold lenN at 1. lia.
 Qed.
 
-Lemma entries_fold_spec m prompts ls es : forall st st',
-  fold_res (entry_step m prompts ls) es st = SOk st' -> fst st + file_pure ls es <= u32_max ->
-  fst st' = fst st + file_pure ls es /\ (forallb (has_prompt prompts) es = true -> J st -> J st').
+Lemma NoDup_app_intro {A} (l1 l2 : list A) : NoDup l1 -> NoDup l2 -> (forall x, In x l1 -> ~ In x l2) -> NoDup (l1 ++ l2).
 Proof.
-  induction es; intros st st' H B; cbn [fold_res] in H.
-  - inversion H. subst. change (file_pure ls []) with 0. split; [lia|tauto].
-  - unfold file_pure in *. rewrite sumN_cons in *.
-    destruct (entry_step m prompts ls st a) eqn:E; cbn [sbind] in H; [|discriminate].
-    destruct (entry_step_spec _ _ _ _ _ _ E) as [T1 T2]; [lia|].
-    destruct (IHes _ _ H) as [T3 T4]; [lia|]. split; [lia|].
-    cbn [forallb]. intros HP J0. apply andb_true_iff in HP. destruct HP. apply T4; [assumption|]. apply T2; assumption.
+  induction l1; intros N1 N2 D; [exact N2|]. inversion N1. subst. cbn [app]. constructor.
+  - rewrite in_app_iff. intros [F|F]; [contradiction|]. apply (D a); [left; reflexivity|assumption].
+  - apply IHl1; [assumption|assumption|]. intros x Hx. apply D. right. assumption.
 Qed.
 
-Definition fatt_has_prompts (prompts : list (str * prompt)) (fa : fatt) : bool :=
-  forallb (has_prompt prompts) (f_entries fa).
-
-Lemma atts_fold_spec m prompts added atts : forall st st',
-  fold_res (file_step m prompts added) atts st = SOk st' -> fst st + atts_pure added atts <= u32_max ->
-  fst st' = fst st + atts_pure added atts /\ (forallb (fatt_has_prompts prompts) atts = true -> J st -> J st').
+Lemma flat_NoDup cm : NoDup (keys cm) -> (forall p C, In (p, C) cm -> NoDup C) -> NoDup (flat cm).
 Proof.
-  induction atts; intros st st' H B; cbn [fold_res] in H.
-  - inversion H. subst. change (atts_pure added []) with 0. split; [lia|tauto].
-  - unfold atts_pure in *. rewrite sumN_cons in *.
-    destruct (file_step m prompts added st a) eqn:E; cbn [sbind] in H; [|discriminate].
-    assert (fst a0 = fst st + fatt_pure added a /\ (fatt_has_prompts prompts a = true -> J st -> J a0)) as [T1 T2].
-    { unfold file_step, fatt_pure in *. destruct (lookup (f_path a) added).
-      - apply entries_fold_spec in E; [exact E|lia].
-      - inversion E. subst. split; [lia|tauto]. }
-    destruct (IHatts _ _ H) as [T3 T4]; [lia|]. split; [lia|].
-    cbn [forallb]. intros HP J0. apply andb_true_iff in HP. destruct HP. apply T4; [assumption|]. apply T2; assumption.
+  induction cm as [|[p C] cm]; intros NK NC; [constructor|]. cbn [keys map fst] in NK. inversion NK as [|? ? NI NK']. subst.
+  change (flat ((p, C) :: cm)) with (map (pair p) C ++ flat cm). apply NoDup_app_intro.
+  - apply FinFun.Injective_map_NoDup; [intros a b E; inversion E; reflexivity|]. apply (NC p C). left. reflexivity.
+  - apply IHcm; [assumption|]. intros q D H. apply (NC q D). right. assumption.
+  - intros [q x] H1 H2. apply in_map_iff in H1. destruct H1 as (y & E & _). inversion E. subst.
+    apply flat_In in H2. destruct H2 as (D & HD & _). apply NI. apply in_keys. exists D. assumption.
 Qed.
 
-
-Lemma accepted_spec m n added r :
-  accepted_from_attestations m n added false = SOk r -> atts_pure added (note_atts n) <= u32_max ->
-  fst r = atts_pure added (note_atts n) /\
-  (forallb (fatt_has_prompts (note_prompts n)) (note_atts n) = true -> sumv idN (snd r) = fst r /\ NoDup (keys (snd r))).
+Lemma size_le_total added cm : cm_ok added cm -> size cm <= total_len added.
 Proof.
-  unfold accepted_from_attestations. destruct n as [n|]; cbn [note_atts note_prompts].
-  - intros H B. apply atts_fold_spec in H; [|cbn [fst]; lia]. cbn [fst] in H. destruct H as [H1 H2].
-    split; [lia|]. intros HP. apply H2; [assumption|]. split; [reflexivity|constructor].
-  - intros H _. inversion H. subst. cbn. split; [reflexivity|]. intros _. split; [reflexivity|constructor].
+  intros (NK & NC & DOM). rewrite <- flat_length. change (total_len added) with (size added). rewrite <- (flat_length added).
+  assert (length (flat cm) <= length (flat added))%nat as LE; [|lia].
+  apply NoDup_incl_length; [apply flat_NoDup; assumption|].
+  intros [p x] H. apply flat_In in H. apply DOM in H. destruct H as (ls & L & Hx).
+  apply flat_In. exists ls. split; [apply lookup_In; assumption|assumption].
 Qed.
 
-Lemma accepted_merge m n added r : accepted_from_attestations m n added true = SOk r -> r = (0, []).
-Proof. unfold accepted_from_attestations. intros H. inversion H. reflexivity. Qed.
+(* the state between two entries.  Q p x : line x of file p has been counted;
+   U : lines counted for sessions without prompt record *)
+Definition Inv (added : list (str * list N)) (st : astate) (Q : str -> N -> Prop) (U : N) : Prop :=
+  cm_ok added (snd st) /\ (forall p x, lines_in (snd st) p x <-> Q p x) /\
+  fst (fst st) = size (snd st) /\ sumv idN (snd (fst st)) + U = fst (fst st) /\ NoDup (keys (snd (fst st))).
 
-(* the total is a u32 whatever the input *)
-Lemma accepted_le_max m n added mg r : accepted_from_attestations m n added mg = SOk r -> fst r <= u32_max.
+Section Accepted.
+  Variable m : ovf.
+  Variable prompts : list (str * prompt).
+  Variable added : list (str * list N).
+  Hypothesis Hsorted : forall p ls, lookup p added = Some ls -> ssorted ls.
+  Hypothesis Hfit : total_len added <= u32_max.
+
+  Lemma file_fits p ls : lookup p added = Some ls -> N.of_nat (length ls) <= u32_max.
+  Proof.
+    intros L. apply lookup_In in L. pose proof (sumN_In_le (fun kv => lenN (snd kv)) (p, ls) added L) as H.
+    cbn [snd] in H. unfold lenN at 1 in H. unfold total_len, sumv in Hfit. lia.
+  Qed.
+
+  Lemma entry_step_fwd path ls st Q U e :
+    lookup path added = Some ls -> Inv added st Q U -> In path (keys (snd st)) ->
+    exists st' U', entry_step m prompts path ls st e = SOk st' /\
+      Inv added st' (fun p x => Q p x \/ (p = path /\ In x ls /\ ai_entry e x = true)) U' /\
+      In path (keys (snd st')) /\ (has_prompt prompts e = true -> U' = U).
+  Proof.
+    destruct st as [[total per] cm]. intros L ((NK & NC & DOM) & MEM & TOT & PER & NP) HK. cbn [fst snd] in *.
+    unfold entry_step.
+    (* the set of the file *)
+    apply in_keys in HK. destruct HK as (C & HC). rewrite (lookup_NoDup _ _ _ NK HC).
+    assert (incl C ls) as INC.
+    { intros x Hx. destruct (DOM path x) as (ls' & L' & Hx'); [exists C; split; assumption|]. congruence. }
+    destruct (entry_accepted_fwd m ls C e (Hsorted _ _ L) (file_fits _ _ L) (NC _ _ HC) INC)
+      as (C' & a & EA & ND' & INC' & LEN & MEM').
+    rewrite EA. cbn [sbind fst snd].
+    destruct (map_upd_fun [] path (fun _ => C') cm NK) as (cm' & EU & NK' & HK' & M' & S').
+    rewrite EU. cbn [sbind].
+    assert (lookup_or [] path cm = C) as LO by (unfold lookup_or; rewrite (lookup_NoDup _ _ _ NK HC); reflexivity).
+    rewrite LO in *.
+    (* the new map *)
+    assert (forall p x, lines_in cm' p x <-> Q p x \/ (p = path /\ In x ls /\ ai_entry e x = true)) as MEMQ.
+    { intros p x. unfold lines_in. split.
+      - intros (D & HD & Hx). apply M' in HD. destruct HD as [[-> ->]|[NE HD]].
+        + apply MEM' in Hx. destruct Hx as [Hx|Hx]; [left; apply MEM; exists C; split; assumption|right; tauto].
+        + left. apply MEM. exists D. split; assumption.
+      - intros [H|(-> & Hx & Hai)].
+        + apply MEM in H. destruct H as (D & HD & Hx). destruct (list_eq_dec N.eq_dec p path) as [->|NE].
+          * exists C'. split; [apply M'; left; split; reflexivity|]. apply MEM'. left.
+            pose proof (lookup_NoDup _ _ _ NK HD) as E2.
+            rewrite (lookup_NoDup _ _ _ NK HC) in E2. inversion E2. subst. assumption.
+          * exists D. split; [apply M'; right; split; assumption|assumption].
+        + exists C'. split; [apply M'; left; split; reflexivity|]. apply MEM'. right. split; assumption. }
+    assert (cm_ok added cm') as OK'.
+    { split; [assumption|]. split.
+      - intros p D HD. apply M' in HD. destruct HD as [[-> ->]|[_ HD]]; [assumption|apply (NC p D HD)].
+      - intros p x H. apply MEMQ in H. destruct H as [H|(-> & Hx & _)].
+        + apply DOM. apply MEM. assumption.
+        + exists ls. split; assumption. }
+    pose proof (size_le_total added cm' OK') as BOUND.
+    destruct (S' lenN eq_refl) as [SZ _]. fold (size cm') in SZ. fold (size cm) in SZ. unfold lenN at 1 2 in SZ.
+    assert (size cm' = total + a) as SZ' by lia.
+    destruct (a =? 0) eqn:Z.
+    - exists (total, per, cm'), U. split; [reflexivity|]. split; [|split; [assumption|reflexivity]].
+      split; [assumption|]. split; [assumption|]. cbn [fst snd]. repeat split; try assumption; lia.
+    - rewrite uadd_small by lia. cbn [sbind]. unfold has_prompt. destruct (lookup (e_hash e) prompts) as [pr|].
+      + rewrite (map_upd_same 0 (tool_key pr) (fun v => uadd m v a) (fun v => v + a) per).
+        * destruct (map_upd_fun 0 (tool_key pr) (fun v => v + a) per NP) as (per' & EP & NP' & _ & _ & SP).
+          rewrite EP. cbn [sbind]. exists (total + a, per', cm'), U. split; [reflexivity|].
+          split; [|split; [assumption|reflexivity]].
+          split; [assumption|]. split; [assumption|]. cbn [fst snd]. split; [lia|]. split; [|assumption].
+          destruct (SP idN eq_refl) as [SP1 _]. unfold idN in *. lia.
+        * apply uadd_small. lia.
+        * intros kv Hin. apply uadd_small. pose proof (sumN_In_le (fun kv => idN (snd kv)) kv per Hin) as LE.
+          unfold sumv in PER. unfold idN at 1 in LE. lia.
+      + exists (total + a, per, cm'), (U + a). split; [reflexivity|]. split; [|split; [assumption|discriminate]].
+        split; [assumption|]. split; [assumption|]. cbn [fst snd]. repeat split; try assumption; lia.
+  Qed.
+
+  Lemma Inv_ext st Q Q' U : (forall p x, Q p x <-> Q' p x) -> Inv added st Q U -> Inv added st Q' U.
+  Proof.
+    intros E (OK & MEM & R). split; [assumption|]. split; [|assumption]. intros p x. rewrite MEM. apply E.
+  Qed.
+
+  Lemma entries_fwd path ls es : forall st Q U,
+    lookup path added = Some ls -> Inv added st Q U -> In path (keys (snd st)) ->
+    exists st' U', fold_res (entry_step m prompts path ls) es st = SOk st' /\
+      Inv added st' (fun p x => Q p x \/ (p = path /\ In x ls /\ ai_line es x = true)) U' /\
+      In path (keys (snd st')) /\ (forallb (has_prompt prompts) es = true -> U' = U).
+  Proof.
+    induction es as [|e es]; intros st Q U L I HK; cbn [fold_res].
+    - exists st, U. split; [reflexivity|]. split; [|split; [assumption|reflexivity]].
+      apply (Inv_ext st Q); [|assumption]. intros p x. cbn [ai_line existsb]. intuition discriminate.
+    - destruct (entry_step_fwd path ls st Q U e L I HK) as (st1 & U1 & E1 & I1 & HK1 & P1).
+      rewrite E1. cbn [sbind]. destruct (IHes st1 _ U1 L I1 HK1) as (st2 & U2 & E2 & I2 & HK2 & P2).
+      exists st2, U2. split; [assumption|]. split; [|split; [assumption|]].
+      + eapply Inv_ext; [|exact I2]. intros p x. cbn beta. unfold ai_line. cbn [existsb]. fold (ai_entry e x).
+        rewrite orb_true_iff. tauto.
+      + cbn [forallb]. intros HP. apply andb_true_iff in HP. destruct HP. rewrite P2, P1 by assumption. reflexivity.
+  Qed.
+
+  Definition fatt_has_prompts (fa : fatt) : bool := forallb (has_prompt prompts) (f_entries fa).
+
+  Definition Qfile (fa : fatt) (p : str) (x : N) : Prop :=
+    f_path fa = p /\ exists ls, lookup p added = Some ls /\ In x ls /\ ai_line (f_entries fa) x = true.
+
+  Lemma file_step_fwd st Q U fa : Inv added st Q U ->
+    exists st' U', file_step m prompts added st fa = SOk st' /\
+      Inv added st' (fun p x => Q p x \/ Qfile fa p x) U' /\ (fatt_has_prompts fa = true -> U' = U).
+  Proof.
+    intros I. unfold file_step. destruct (lookup (f_path fa) added) as [ls|] eqn:L.
+    - destruct st as [[total per] cm]. destruct I as ((NK & NC & DOM) & MEM & TOT & PER & NP). cbn [fst snd] in *.
+      destruct (map_upd_fun [] (f_path fa) (fun c => c) cm NK) as (cm0 & E0 & NK0 & HK0 & M0 & S0).
+      rewrite E0. cbn [sbind].
+      assert (forall p x, lines_in cm0 p x <-> lines_in cm p x) as LI.
+      { intros p x. unfold lines_in. split.
+        - intros (C & HC & Hx). apply M0 in HC. destruct HC as [[-> ->]|[_ HC]]; [|exists C; split; assumption].
+          unfold lookup_or in Hx. destruct (lookup (f_path fa) cm) as [c|] eqn:LC; [|destruct Hx].
+          exists c. split; [apply lookup_In; assumption|assumption].
+        - intros (C & HC & Hx). exists C. split; [|assumption]. apply M0.
+          destruct (list_eq_dec N.eq_dec p (f_path fa)) as [->|NE]; [left|right; split; assumption].
+          split; [reflexivity|]. unfold lookup_or. rewrite (lookup_NoDup _ _ _ NK HC). reflexivity. }
+      assert (Inv added (total, per, cm0) Q U) as I0.
+      { split; [split; [assumption|split]|].
+        - intros p C HC. apply M0 in HC. destruct HC as [[-> ->]|[_ HC]]; [|apply (NC p C HC)].
+          unfold lookup_or. destruct (lookup (f_path fa) cm) as [c|] eqn:LC; [|constructor].
+          apply (NC (f_path fa) c). apply lookup_In. assumption.
+        - intros p x H. apply DOM. apply LI. assumption.
+        - cbn [fst snd]. split; [intros p x; rewrite LI; apply MEM|]. split; [|split; assumption].
+          destruct (S0 lenN eq_refl) as [SZ _]. fold (size cm0) in SZ. fold (size cm) in SZ. lia. }
+      destruct (entries_fwd (f_path fa) ls (f_entries fa) _ Q U L I0 HK0) as (st' & U' & E & I' & _ & P).
+      exists st', U'. split; [assumption|]. split; [|assumption].
+      eapply Inv_ext; [|exact I']. intros p x. unfold Qfile. split.
+      + intros [H|(-> & Hx & Hai)]; [left; assumption|right]. split; [reflexivity|]. exists ls. repeat split; assumption.
+      + intros [H|(<- & ls' & L' & Hx & Hai)]; [left; assumption|right]. rewrite L in L'. inversion L'. subst. repeat split; assumption.
+    - exists st, U. split; [reflexivity|]. split; [|reflexivity]. eapply Inv_ext; [|exact I].
+      intros p x. unfold Qfile. split; [tauto|]. intros [H|(<- & ls' & L' & _)]; [assumption|congruence].
+  Qed.
+
+  Definition Qatts (atts : list fatt) (p : str) (x : N) : Prop := exists fa, In fa atts /\ Qfile fa p x.
+
+  Lemma atts_fwd atts : forall st Q U, Inv added st Q U ->
+    exists st' U', fold_res (file_step m prompts added) atts st = SOk st' /\
+      Inv added st' (fun p x => Q p x \/ Qatts atts p x) U' /\ (forallb fatt_has_prompts atts = true -> U' = U).
+  Proof.
+    induction atts as [|fa atts]; intros st Q U I; cbn [fold_res].
+    - exists st, U. split; [reflexivity|]. split; [|reflexivity]. eapply Inv_ext; [|exact I].
+      intros p x. unfold Qatts. split; [tauto|]. intros [H|(fa & [] & _)]. assumption.
+    - destruct (file_step_fwd st Q U fa I) as (st1 & U1 & E1 & I1 & P1). rewrite E1. cbn [sbind].
+      destruct (IHatts st1 _ U1 I1) as (st2 & U2 & E2 & I2 & P2). exists st2, U2. split; [assumption|].
+      split.
+      + eapply Inv_ext; [|exact I2]. intros p x. cbn beta. unfold Qatts. cbn [In]. split.
+        * intros [[H|H]|(fb & Hin & H)]; [left; assumption|right; exists fa; split; [left; reflexivity|assumption]|].
+          right. exists fb. split; [right; assumption|assumption].
+        * intros [H|(fb & [<-|Hin] & H)]; [left; left; assumption|left; right; assumption|].
+          right. exists fb. split; assumption.
+      + cbn [forallb]. intros HP. apply andb_true_iff in HP. destruct HP. rewrite P2, P1 by assumption. reflexivity.
+  Qed.
+End Accepted.
+
+Lemma Inv_init added : Inv added (0, [], []) (fun _ _ => False) 0.
 Proof.
-  unfold accepted_from_attestations. destruct mg; [intros H; inversion H; cbn; unfold u32_max; lia|].
-  destruct n as [n|]; [|intros H; inversion H; cbn; unfold u32_max; lia].
-  intros H. refine (fold_res_inv (fun st => fst st <= u32_max) _ _ _ _ _ H _).
-  - intros st fa st' _ E L. unfold file_step in E. destruct (lookup (f_path fa) added); [|inversion E; subst; assumption].
-    refine (fold_res_inv (fun s => fst s <= u32_max) _ _ _ _ _ E L). clear. intros s e s' _ E L. unfold entry_step in E.
-    destruct (entry_accepted m l e); cbn [sbind] in E; [|discriminate].
-    destruct (a =? 0); [inversion E; subst; assumption|].
-    destruct (uadd m (fst s) a) eqn:U; cbn [sbind] in E; [|discriminate]. apply uadd_le in U.
-    destruct (lookup (e_hash e) (n_prompts n)).
-    + destruct (map_upd 0 (tool_key p) (fun v => uadd m v a) (snd s)); cbn [sbind] in E; [|discriminate].
-      inversion E. subst. assumption.
-    + inversion E. subst. assumption.
-  - cbn. unfold u32_max. lia.
+  split; [split; [constructor|split]|].
+  - intros p C [].
+  - intros p x (C & [] & _).
+  - cbn [fst snd]. split; [|repeat split; constructor]. intros p x. split; [intros (C & [] & _)|intros []].
+Qed.
+
+(* the result of accepted_lines_from_attestations, for a commit that is not a merge *)
+Lemma accepted_fwd m n added :
+  (forall p ls, lookup p added = Some ls -> ssorted ls) -> total_len added <= u32_max ->
+  exists tot per cm U, accepted_from_attestations m n added false = SOk (tot, per) /\
+    Inv added (tot, per, cm) (Qatts added (note_atts n)) U /\
+    (forallb (fatt_has_prompts (note_prompts n)) (note_atts n) = true -> U = 0).
+Proof.
+  intros S F. unfold accepted_from_attestations. destruct n as [n|]; cbn [note_atts note_prompts].
+  - destruct (atts_fwd m (n_prompts n) added S F (n_atts n) _ _ _ (Inv_init added)) as ([[tot per] cm] & U & E & I & P).
+    rewrite E. cbn [sbind fst snd]. exists tot, per, cm, U. split; [reflexivity|]. split; [|assumption].
+    eapply Inv_ext; [|exact I]. intros p x. tauto.
+  - exists 0, [], [], 0. split; [reflexivity|]. split; [|reflexivity].
+    eapply Inv_ext; [|apply Inv_init]. intros p x. unfold Qatts. split; [intros []|intros (fa & [] & _)].
 Qed.
 
 (* ------------------------------------------------------------------ the glue: prep_added *)
@@ -493,240 +812,143 @@ Proof.
       apply str_eqb_eq in E. subst. rewrite IK. reflexivity.
 Qed.
 
-Definition glen (ls : list N) : N := N.of_nat (length (nodup N.eq_dec ls)).
-
-Lemma added_count_cons ignored k v raw :
-  added_count ignored ((k, v) :: raw) = (if ignored k then 0 else glen v) + added_count ignored raw.
-Proof. unfold added_count, glen. cbn [fold_right fst snd]. destruct (ignored k); lia. Qed.
-
-Lemma lookup_len_le ignored raw p ls : lookup p raw = Some ls -> ignored p = false ->
-  glen ls <= added_count ignored raw.
+Lemma prep_sorted ignored raw mg p ls : lookup p (prep_added ignored raw mg) = Some ls -> ssorted ls.
 Proof.
-  induction raw as [|[k v] raw]; cbn [lookup]; [discriminate|]. intros H I. rewrite added_count_cons.
-  destruct (str_eqb p k) eqn:E.
-  - apply str_eqb_eq in E. subst. inversion H. subst. rewrite I. lia.
-  - specialize (IHraw H I). lia.
+  destruct mg; [discriminate|]. rewrite lookup_prep. destruct (ignored p); [discriminate|].
+  destruct (lookup p raw); [|discriminate]. intros H. inversion H. apply sort_dedup_sorted.
 Qed.
 
-Lemma file_pure_sorted ls es : ssorted ls -> N.of_nat (length ls) < u32_mod ->
-  pairwise ranges_disjoint (all_ranges es) = true -> file_pure ls es = cnt (ai_line es) ls.
+Lemma prep_total_len ignored raw : total_len (prep_added ignored raw false) = added_count ignored raw.
 Proof.
-  intros S B D. unfold file_pure, entry_pure.
-  rewrite <- (sumN_flat_map (fun r => overlap_len r ls) e_ranges es). fold (all_ranges es).
-  rewrite (sumN_ext _ (fun r => cnt (in_range r) ls)) by (intros; apply overlap_sorted; assumption).
-  rewrite disjoint_sum_cnt by assumption. apply cnt_ext. intros. symmetry. apply ai_line_all_ranges.
+  unfold total_len, prep_added, added_count. induction raw as [|[k v] raw]; [reflexivity|].
+  cbn [filter fold_right fst snd]. destruct (ignored k); cbn [negb map]; [assumption|].
+  rewrite sumv_cons. cbn [snd]. unfold lenN at 1. rewrite sort_dedup_length, IHraw. reflexivity.
 Qed.
 
-Definition inter_term (ignored : str -> bool) (raw : list (str * list N)) (fa : fatt) : N :=
-  if ignored (f_path fa) then 0
-  else match lookup (f_path fa) raw with
-       | Some ls => cnt (ai_line (f_entries fa)) (nodup N.eq_dec ls)
-       | None => 0
-       end.
-
-Lemma inter_count_sum ignored n raw : inter_count ignored n raw = sumN (inter_term ignored raw) (note_atts n).
+Lemma Qatts_attributed ignored n raw p x :
+  Qatts (prep_added ignored raw false) (note_atts n) p x <-> attributed ignored n raw p x.
 Proof.
-  destruct n as [n|]; [|reflexivity]. cbn [inter_count note_atts]. induction (n_atts n); [reflexivity|].
-  cbn [fold_right]. rewrite sumN_cons, <- IHl. unfold inter_term, cnt.
-  destruct (ignored (f_path a)); [lia|]. destruct (lookup (f_path a) raw); lia.
-Qed.
-
-Lemma atts_pure_inter ignored n raw :
-  added_count ignored raw <= u32_max -> olift note_disjoint n = true ->
-  atts_pure (prep_added ignored raw false) (note_atts n) = inter_count ignored n raw.
-Proof.
-  intros B D. rewrite inter_count_sum. unfold atts_pure. apply sumN_ext. intros fa Hin.
-  unfold fatt_pure, inter_term. rewrite lookup_prep. destruct (ignored (f_path fa)) eqn:I; [reflexivity|].
-  destruct (lookup (f_path fa) raw) as [ls|] eqn:L; cbn [option_map]; [|reflexivity].
-  pose proof (lookup_len_le _ _ _ _ L I) as LB. unfold glen in LB.
-  rewrite file_pure_sorted.
-  - apply sort_dedup_cnt.
-  - apply sort_dedup_sorted.
-  - rewrite sort_dedup_length. unfold u32_mod, u32_max in *. lia.
-  - destruct n as [n|]; [|destruct Hin]. cbn [olift note_atts] in *. unfold note_disjoint in D.
-    rewrite forallb_forall in D. apply D. assumption.
-Qed.
-
-(* ------------------------------------------------------------------ the intersection fits in the diff *)
-
-Definition pterm (ignored : str -> bool) (raw : list (str * list N)) (p : str) : N :=
-  if ignored p then 0 else match lookup p raw with Some ls => glen ls | None => 0 end.
-
-Lemma pterm_cons_ne ignored k v raw p : p <> k -> pterm ignored ((k, v) :: raw) p = pterm ignored raw p.
-Proof.
-  intros NE. unfold pterm. cbn [lookup]. destruct (str_eqb p k) eqn:E; [|reflexivity].
-  apply str_eqb_eq in E. contradiction.
-Qed.
-
-Lemma T_cons_notin ignored k v raw ps : ~ In k ps ->
-  sumN (pterm ignored ((k, v) :: raw)) ps = sumN (pterm ignored raw) ps.
-Proof.
-  intros NI. apply sumN_ext. intros p Hp. apply pterm_cons_ne. intros E. subst. contradiction.
-Qed.
-
-Lemma T_cons_le ignored k v raw ps : NoDup ps ->
-  sumN (pterm ignored ((k, v) :: raw)) ps <= sumN (pterm ignored raw) ps + (if ignored k then 0 else glen v).
-Proof.
-  induction ps as [|p ps]; intros ND.
-  - change (sumN (pterm ignored ((k, v) :: raw)) []) with 0. lia.
-  - inversion ND as [|? ? NI ND']. subst. rewrite !sumN_cons.
-    destruct (str_eqb p k) eqn:E.
-    + apply str_eqb_eq in E. subst p. rewrite T_cons_notin by assumption.
-      unfold pterm at 1. cbn [lookup]. rewrite str_eqb_refl. destruct (ignored k); lia.
-    + rewrite pterm_cons_ne; [|intros F; subst; rewrite str_eqb_refl in E; discriminate].
-      specialize (IHps ND'). lia.
-Qed.
-
-Lemma T_le ignored raw ps : NoDup ps -> sumN (pterm ignored raw) ps <= added_count ignored raw.
-Proof.
-  intros ND. induction raw as [|[k v] raw].
-  - rewrite (sumN_ext _ (fun _ => 0)).
-    + induction ps; [cbn; lia|]. rewrite sumN_cons. inversion ND. subst. specialize (IHps H2). lia.
-    + intros p _. unfold pterm. cbn [lookup]. destruct (ignored p); reflexivity.
-  - rewrite added_count_cons. pose proof (T_cons_le ignored k v raw ps ND). lia.
-Qed.
-
-Lemma sumN_map {A B} (f : B -> N) (g : A -> B) l : sumN f (map g l) = sumN (fun a => f (g a)) l.
-Proof. induction l; [reflexivity|]. cbn [map]. rewrite !sumN_cons, IHl. reflexivity. Qed.
-
-Lemma sumN_le {A} (f g : A -> N) l : (forall x, In x l -> f x <= g x) -> sumN f l <= sumN g l.
-Proof.
-  induction l; intros H; [cbn; lia|]. rewrite !sumN_cons. pose proof (H a (or_introl eq_refl)).
-  assert (sumN f l <= sumN g l) by (apply IHl; intros; apply H; right; assumption). lia.
-Qed.
-
-Lemma str_nodup_NoDup l : str_nodup l = true -> NoDup l.
-Proof.
-  induction l; [constructor|]. cbn [str_nodup]. intros H. apply andb_true_iff in H. destruct H as [H1 H2].
-  constructor; [|apply IHl; assumption]. intros Hin. apply negb_true_iff in H1.
-  assert (existsb (str_eqb a) l = true); [|congruence].
-  apply existsb_exists. exists a. split; [assumption|apply str_eqb_refl].
-Qed.
-
-Lemma inter_le_added ignored n raw : olift note_paths_unique n = true ->
-  inter_count ignored n raw <= added_count ignored raw.
-Proof.
-  intros U. rewrite inter_count_sum.
-  apply N.le_trans with (sumN (pterm ignored raw) (map f_path (note_atts n))).
-  - rewrite sumN_map. apply sumN_le. intros fa _. unfold inter_term, pterm.
-    destruct (ignored (f_path fa)); [lia|]. destruct (lookup (f_path fa) raw); [|lia].
-    unfold glen. apply cnt_le_length.
-  - apply T_le. destruct n as [n|]; [|constructor]. apply str_nodup_NoDup. exact U.
+  unfold Qatts, Qfile, attributed. split.
+  - intros (fa & Hin & <- & ls' & L & Hx & Hai). rewrite lookup_prep in L.
+    destruct (ignored (f_path fa)); [discriminate|]. split; [reflexivity|].
+    destruct (lookup (f_path fa) raw) as [ls|]; [|discriminate]. inversion L. subst.
+    exists ls. split; [reflexivity|]. split; [apply sort_dedup_In; assumption|].
+    exists fa. repeat split; assumption.
+  - intros (IG & ls & L & Hx & fa & Hin & <- & Hai). exists fa. split; [assumption|]. split; [reflexivity|].
+    exists (sort_dedup ls). rewrite lookup_prep, IG, L. split; [reflexivity|].
+    split; [apply sort_dedup_In; assumption|assumption].
 Qed.
 
 (* ------------------------------------------------------------------ stats_from_log: the prompt loop *)
+
+Lemma sat_add_small a b : a + b <= u32_max -> sat_add a b = a + b.
+Proof. unfold sat_add. lia. Qed.
+
+Lemma sat_add_le a b : sat_add a b <= u32_max.
+Proof. unfold sat_add. lia. Qed.
 
 Definition sumP (g : prompt -> N) (ps : list (str * prompt)) : N := sumN (fun hp => g (snd hp)) ps.
 
 Definition pstate := (N * N * N * list (str * tool_stats))%type.
 
-Lemma prompt_step_inv m (st st' : pstate) hp : prompt_step m st hp = SOk st' ->
-  uadd m (fst (fst (fst st))) (p_total_add (snd hp)) = SOk (fst (fst (fst st'))) /\
-  uadd m (snd (fst (fst st))) (p_total_del (snd hp)) = SOk (snd (fst (fst st'))) /\
-  uadd m (snd (fst st)) (p_overriden (snd hp)) = SOk (snd (fst st')) /\
-  map_upd tool_default (tool_key (snd hp)) (tool_add_prompt m (snd hp)) (snd st) = SOk (snd st').
-Proof.
-  destruct st as [[[ta td] mx] tools]. unfold prompt_step. cbn [fst snd].
-  destruct (uadd m ta _); cbn [sbind]; [|discriminate].
-  destruct (uadd m td _); cbn [sbind]; [|discriminate].
-  destruct (uadd m mx _); cbn [sbind]; [|discriminate].
-  destruct (map_upd _ _ _ _); cbn [sbind]; [|discriminate].
-  intros H. inversion H. subst. cbn [fst snd]. repeat split.
-Qed.
-
-Lemma tool_add_prompt_inv m p v v' : tool_add_prompt m p v = SOk v' ->
-  uadd m (t_total_add v) (p_total_add p) = SOk (t_total_add v') /\
-  uadd m (t_total_del v) (p_total_del p) = SOk (t_total_del v') /\
-  uadd m (t_mixed v) (p_overriden p) = SOk (t_mixed v') /\
-  t_accepted v' = t_accepted v.
-Proof.
-  unfold tool_add_prompt.
-  destruct (uadd m (t_total_add v) _); cbn [sbind]; [|discriminate].
-  destruct (uadd m (t_total_del v) _); cbn [sbind]; [|discriminate].
-  destruct (uadd m (t_mixed v) _); cbn [sbind]; [|discriminate].
-  intros H. inversion H. subst. cbn. repeat split.
-Qed.
-
-(* one accumulator [proj] of the loop together with the matching per-tool field [h] *)
-Section Field.
-  Variable m : ovf.
-  Variable proj : pstate -> N.
-  Variable h : tool_stats -> N.
-  Variable g : prompt -> N.
-  Hypothesis Hproj : forall st hp st', prompt_step m st hp = SOk st' ->
-    uadd m (proj st) (g (snd hp)) = SOk (proj st').
-  Hypothesis Hh : forall p v v', tool_add_prompt m p v = SOk v' -> uadd m (h v) (g p) = SOk (h v').
-  Hypothesis Hd : h tool_default = 0.
-
-  Lemma field_fold ps : forall st st' : pstate,
-    fold_res (prompt_step m) ps st = SOk st' ->
-    proj st + sumP g ps <= u32_max -> sumv h (snd st) = proj st ->
-    proj st' = proj st + sumP g ps /\ sumv h (snd st') = proj st'.
-  Proof.
-    induction ps as [|hp ps]; intros st st' H B S; cbn [fold_res] in H.
-    - inversion H. subst. change (sumP g []) with 0. split; [lia|assumption].
-    - unfold sumP in *. rewrite sumN_cons in *.
-      destruct (prompt_step m st hp) as [st1|] eqn:E; cbn [sbind] in H; [|discriminate].
-      pose proof (Hproj _ _ _ E) as U. apply uadd_ok in U; [|lia].
-      destruct (prompt_step_inv _ _ _ _ E) as (_ & _ & _ & MU).
-      destruct (map_upd_facts _ _ _ _ _ MU) as (v & v' & Hf & Hs & _).
-      destruct (Hs h Hd) as [S1 S2]. apply Hh in Hf. apply uadd_ok in Hf; [|lia].
-      destruct (IHps _ _ H) as [T1 T2]; [lia|lia|]. split; [lia|assumption].
-  Qed.
-End Field.
-
 Definition tools_struct (ts : list (str * tool_stats)) : Prop :=
   NoDup (keys ts) /\ forall kt, In kt ts -> t_accepted (snd kt) = 0.
 
-Lemma prompt_fold_struct m ps (st st' : pstate) :
-  fold_res (prompt_step m) ps st = SOk st' -> tools_struct (snd st) -> tools_struct (snd st').
+Lemma tools_struct_nil : tools_struct [].
+Proof. split; [constructor|intros kt []]. Qed.
+
+(* the loop never fails; what it keeps and what it computes *)
+Lemma prompt_fold_fwd ps : forall ta td mx tools, tools_struct tools -> mx <= sumv t_mixed tools ->
+  exists ta' td' mx' tools',
+    fold_res prompt_step ps (ta, td, mx, tools) = SOk (ta', td', mx', tools') /\
+    tools_struct tools' /\ mx' <= sumv t_mixed tools' /\
+    (ta + sumP p_total_add ps <= u32_max -> sumv t_total_add tools = ta ->
+       ta' = ta + sumP p_total_add ps /\ sumv t_total_add tools' = ta') /\
+    (td + sumP p_total_del ps <= u32_max -> sumv t_total_del tools = td ->
+       td' = td + sumP p_total_del ps /\ sumv t_total_del tools' = td') /\
+    (mx + sumP p_overriden ps <= u32_max -> mx' = mx + sumP p_overriden ps).
 Proof.
-  intros H. refine (fold_res_inv (fun st : pstate => tools_struct (snd st)) _ _ _ _ _ H).
-  clear. intros st hp st' _ E [S1 S2]. destruct (prompt_step_inv _ _ _ _ E) as (_ & _ & _ & MU).
-  destruct (map_upd_facts _ _ _ _ _ MU) as (v & v' & Hf & _ & Hk & HP).
-  split; [apply Hk; assumption|].
-  destruct (HP (fun t => t_accepted t = 0) eq_refl S2) as [Pv Pall]. apply Pall.
-  apply tool_add_prompt_inv in Hf. destruct Hf as (_ & _ & _ & A). congruence.
+  induction ps as [|hp ps]; intros ta td mx tools [NK ACC] MX; cbn [fold_res].
+  - exists ta, td, mx, tools. split; [reflexivity|]. split; [split; assumption|]. split; [assumption|].
+    change (sumP p_total_add []) with 0. change (sumP p_total_del []) with 0. change (sumP p_overriden []) with 0.
+    repeat split; try assumption; lia.
+  - unfold prompt_step at 1.
+    destruct (map_upd_fun tool_default (tool_key (snd hp)) (tool_add_prompt (snd hp)) tools NK)
+      as (tools1 & E & NK1 & _ & M & S). rewrite E. cbn [sbind].
+    set (v := lookup_or tool_default (tool_key (snd hp)) tools) in *.
+    assert (t_accepted v = 0) as AV.
+    { unfold v, lookup_or. destruct (lookup (tool_key (snd hp)) tools) as [t|] eqn:L; [|reflexivity].
+      apply (ACC (tool_key (snd hp), t)). apply lookup_In. assumption. }
+    destruct (S t_mixed eq_refl) as [SM1 SM2]. destruct (S t_total_add eq_refl) as [SA1 SA2].
+    destruct (S t_total_del eq_refl) as [SD1 SD2].
+    cbn [tool_add_prompt t_mixed t_total_add t_total_del] in SM1, SA1, SD1.
+    destruct (IHps (sat_add ta (p_total_add (snd hp))) (sat_add td (p_total_del (snd hp)))
+                   (sat_add mx (p_overriden (snd hp))) tools1) as (ta' & td' & mx' & tools' & EF & ST & MX' & FA & FD & FM).
+    { split; [assumption|]. intros [k t] Hin. apply M in Hin. destruct Hin as [[-> ->]|[_ Hin]]; [exact AV|apply (ACC _ Hin)]. }
+    { unfold sat_add in *. lia. }
+    exists ta', td', mx', tools'. split; [assumption|]. split; [assumption|]. split; [assumption|].
+    unfold sumP in *. rewrite !sumN_cons. split; [|split].
+    + intros B0 S0. rewrite sat_add_small in FA by lia. rewrite sat_add_small in SA1 by lia.
+      destruct FA as [F1 F2]; [lia|lia|]. split; [lia|assumption].
+    + intros B0 S0. rewrite sat_add_small in FD by lia. rewrite sat_add_small in SD1 by lia.
+      destruct FD as [F1 F2]; [lia|lia|]. split; [lia|assumption].
+    + intros B0. rewrite sat_add_small in FM by lia. rewrite FM by lia. lia.
 Qed.
 
-Lemma prompt_fold_total_add m ps ta td mx tools :
-  fold_res (prompt_step m) ps (0, 0, 0, []) = SOk (ta, td, mx, tools) -> sumP p_total_add ps <= u32_max ->
-  ta = sumP p_total_add ps /\ sumv t_total_add tools = ta.
+(* ------------------------------------------------------------------ BTreeMap order and the tool-by-tool cap *)
+
+Lemma insert_tool_perm kt l : Permutation (insert_tool kt l) (kt :: l).
 Proof.
-  intros H B.
-  destruct (field_fold m (fun st => fst (fst (fst st))) t_total_add p_total_add) with (ps := ps)
-    (st := (0, 0, 0, @nil (str * tool_stats))) (st' := (ta, td, mx, tools)) as [T1 T2];
-    try assumption; try reflexivity.
-  - intros st hp st' E. apply prompt_step_inv in E. tauto.
-  - intros p v v' E. apply tool_add_prompt_inv in E. tauto.
-  - cbn [fst snd] in *. split; [lia|assumption].
+  induction l as [|kt' l]; cbn [insert_tool]; [reflexivity|]. destruct (str_leb (fst kt) (fst kt')); [reflexivity|].
+  rewrite IHl. apply perm_swap.
 Qed.
 
-Lemma prompt_fold_total_del m ps ta td mx tools :
-  fold_res (prompt_step m) ps (0, 0, 0, []) = SOk (ta, td, mx, tools) -> sumP p_total_del ps <= u32_max ->
-  td = sumP p_total_del ps /\ sumv t_total_del tools = td.
+Lemma sort_tools_perm l : Permutation (sort_tools l) l.
 Proof.
-  intros H B.
-  destruct (field_fold m (fun st => snd (fst (fst st))) t_total_del p_total_del) with (ps := ps)
-    (st := (0, 0, 0, @nil (str * tool_stats))) (st' := (ta, td, mx, tools)) as [T1 T2];
-    try assumption; try reflexivity.
-  - intros st hp st' E. apply prompt_step_inv in E. tauto.
-  - intros p v v' E. apply tool_add_prompt_inv in E. tauto.
-  - cbn [fst snd] in *. split; [lia|assumption].
+  induction l; [reflexivity|]. cbn [sort_tools fold_right]. fold (sort_tools l). rewrite insert_tool_perm, IHl. reflexivity.
 Qed.
 
-Lemma prompt_fold_mixed m ps ta td mx tools :
-  fold_res (prompt_step m) ps (0, 0, 0, []) = SOk (ta, td, mx, tools) -> sumP p_overriden ps <= u32_max ->
-  mx = sumP p_overriden ps /\ sumv t_mixed tools = mx.
+Lemma sumN_perm {A} (f : A -> N) l1 l2 : Permutation l1 l2 -> sumN f l1 = sumN f l2.
+Proof. induction 1; rewrite ?sumN_cons; try reflexivity; lia. Qed.
+
+Lemma sort_tools_struct l : tools_struct l -> tools_struct (sort_tools l).
 Proof.
-  intros H B.
-  destruct (field_fold m (fun st => snd (fst st)) t_mixed p_overriden) with (ps := ps)
-    (st := (0, 0, 0, @nil (str * tool_stats))) (st' := (ta, td, mx, tools)) as [T1 T2];
-    try assumption; try reflexivity.
-  - intros st hp st' E. apply prompt_step_inv in E. tauto.
-  - intros p v v' E. apply tool_add_prompt_inv in E. tauto.
-  - cbn [fst snd] in *. split; [lia|assumption].
+  intros [NK ACC]. pose proof (sort_tools_perm l) as P. split.
+  - unfold keys. apply (Permutation_NoDup (l := map fst l)); [|assumption]. apply Permutation_map. symmetry. assumption.
+  - intros kt Hin. apply ACC. apply (Permutation_in _ P). assumption.
 Qed.
+
+Lemma cap_tools_In R ts : forall kt, In kt (cap_tools R ts) ->
+  exists kt0 x, In kt0 ts /\ kt = (fst kt0, set_mixed x (snd kt0)) /\ x <= t_mixed (snd kt0).
+Proof.
+  revert R. induction ts as [|kt0 ts]; intros R kt Hin; [destruct Hin|]. cbn [cap_tools] in Hin. destruct Hin as [E|Hin].
+  - exists kt0, (N.min (t_mixed (snd kt0)) R). split; [left; reflexivity|]. split; [congruence|lia].
+  - destruct (IHts _ _ Hin) as (k1 & x & H1 & H2 & H3). exists k1, x. split; [right; assumption|]. split; assumption.
+Qed.
+
+Lemma cap_tools_keys R ts : keys (cap_tools R ts) = keys ts.
+Proof. revert R. induction ts; intros R; [reflexivity|]. cbn [cap_tools keys map fst]. f_equal. apply IHts. Qed.
+
+Lemma cap_tools_mixed ts : forall R, sumv t_mixed (cap_tools R ts) = N.min R (sumv t_mixed ts).
+Proof.
+  induction ts as [|kt ts]; intros R; [rewrite sumv_nil; cbn [cap_tools]; rewrite sumv_nil; lia|].
+  cbn [cap_tools]. rewrite !sumv_cons, IHts. cbn [snd set_mixed t_mixed]. lia.
+Qed.
+
+Lemma cap_tools_other (h : tool_stats -> N) ts : (forall x t, h (set_mixed x t) = h t) ->
+  forall R, sumv h (cap_tools R ts) = sumv h ts.
+Proof.
+  intros Hh. induction ts as [|kt ts]; intros R; [reflexivity|]. cbn [cap_tools]. rewrite !sumv_cons, IHts.
+  cbn [snd]. rewrite Hh. reflexivity.
+Qed.
+
+Lemma cap_tools_struct R ts : tools_struct ts -> tools_struct (cap_tools R ts).
+Proof.
+  intros [NK ACC]. split; [rewrite cap_tools_keys; assumption|]. intros kt Hin.
+  destruct (cap_tools_In _ _ _ Hin) as (kt0 & x & H0 & -> & _). cbn [snd set_mixed t_accepted]. apply ACC. assumption.
+Qed.
+
+(* ------------------------------------------------------------------ the per-tool accepted counts *)
 
 (* ------------------------------------------------------------------ the per-tool accepted counts *)
 
@@ -762,43 +984,82 @@ Proof.
       rewrite ?sumv_cons. cbn [snd]. change (idN a) with a. repeat split; lia.
 Qed.
 
-Lemma map_res_finish m ts : forall ts2, map_res (tool_finish m) ts = SOk ts2 ->
-  (forall h : tool_stats -> N, (forall a t, h (set_ai a t) = h t) -> sumv h ts2 = sumv h ts) /\
-  ((forall kt, In kt ts -> t_accepted (snd kt) + t_mixed (snd kt) <= u32_max) ->
-   sumv t_ai_additions ts2 = sumv t_accepted ts + sumv t_mixed ts).
+Lemma sumv_zero {V} (h : V -> N) ts : (forall kt, In kt ts -> h (snd kt) = 0) -> sumv h ts = 0.
 Proof.
-  induction ts as [|kt ts]; intros ts2 H; cbn [map_res] in H.
-  - inversion H. subst. split; intros; rewrite ?sumv_nil; reflexivity.
-  - destruct (tool_finish m kt) as [kt2|] eqn:E; cbn [sbind] in H; [|discriminate].
-    destruct (map_res (tool_finish m) ts) as [ts2'|] eqn:E2; cbn [sbind] in H; [|discriminate].
-    inversion H. subst. destruct (IHts _ eq_refl) as [I1 I2].
-    unfold tool_finish in E. destruct (uadd m _ _) eqn:U; cbn [sbind] in E; [|discriminate].
-    inversion E. subst. split.
-    + intros h Hh. rewrite !sumv_cons. cbn [snd]. rewrite Hh, I1 by assumption. reflexivity.
-    + intros B. rewrite !sumv_cons. cbn [snd set_ai t_ai_additions].
-      apply uadd_ok in U; [|apply B; left; reflexivity].
-      rewrite I2 by (intros; apply B; right; assumption). lia.
+  induction ts; intros H; [reflexivity|]. rewrite sumv_cons, (H a) by (left; reflexivity).
+  rewrite IHts; [reflexivity|]. intros. apply H. right. assumption.
+Qed.
+
+Lemma accepted_fold_other (h : tool_stats -> N) bt ts ts1 :
+  (forall a t, h (set_accepted a t) = h t) -> h tool_default = 0 ->
+  fold_res accepted_step bt ts = SOk ts1 -> sumv h ts1 = sumv h ts.
+Proof.
+  intros Hs Hd H. refine (fold_res_inv (fun t => sumv h t = sumv h ts) _ _ _ _ _ H eq_refl).
+  clear H. intros t ka t' _ E P. unfold accepted_step in E.
+  destruct (map_upd_facts _ _ _ _ _ E) as (v & v' & Hf & Hsum & _). inversion Hf. subst v'.
+  destruct (Hsum h Hd) as [S1 _]. rewrite Hs in S1. lia.
+Qed.
+
+Lemma map_upd_total {V} (d : V) k (g : V -> V) m : exists m', map_upd d k (fun v => SOk (g v)) m = SOk m'.
+Proof.
+  induction m as [|[k' v] m]; cbn [map_upd sbind]; [eexists; reflexivity|].
+  destruct (str_eqb k k'); cbn [sbind]; [eexists; reflexivity|].
+  destruct IHm as (m' & E). rewrite E. cbn [sbind]. eexists; reflexivity.
+Qed.
+
+Lemma accepted_fold_ok bt : forall ts, exists ts1, fold_res accepted_step bt ts = SOk ts1.
+Proof.
+  induction bt as [|ka bt]; intros ts; cbn [fold_res]; [eexists; reflexivity|].
+  unfold accepted_step at 1. destruct (map_upd_total tool_default (fst ka) (set_accepted (snd ka)) ts) as (ts' & E).
+  rewrite E. cbn [sbind]. apply IHbt.
+Qed.
+
+Lemma finish_sums ts :
+  (forall h : tool_stats -> N, (forall a t, h (set_ai a t) = h t) -> sumv h (map tool_finish ts) = sumv h ts) /\
+  ((forall kt, In kt ts -> t_accepted (snd kt) + t_mixed (snd kt) <= u32_max) ->
+   sumv t_ai_additions (map tool_finish ts) = sumv t_accepted ts + sumv t_mixed ts).
+Proof.
+  induction ts as [|kt ts]; [split; intros; reflexivity|]. destruct IHts as [I1 I2]. cbn [map]. split.
+  - intros h Hh. rewrite !sumv_cons. unfold tool_finish at 1. cbn [snd]. rewrite Hh, I1 by assumption. reflexivity.
+  - intros B. rewrite !sumv_cons. unfold tool_finish at 1. cbn [snd set_ai t_ai_additions].
+    rewrite sat_add_small by (apply B; left; reflexivity).
+    rewrite I2 by (intros; apply B; right; assumption). lia.
 Qed.
 
 (* ------------------------------------------------------------------ stats_from_log, inverted *)
 
+Definition capped (ga acc mx : N) : N := if sat_sub ga acc <? mx then sat_sub ga acc else mx.
+
+Lemma capped_le ga acc mx : capped ga acc mx <= sat_sub ga acc /\ capped ga acc mx <= mx.
+Proof. unfold capped. destruct (sat_sub ga acc <? mx) eqn:E; lia. Qed.
+
 Lemma stats_from_log_inv m n ga gd acc bt s : stats_from_log m n ga gd acc bt = SOk s ->
   exists ta td mx tools tools1,
-    fold_res (prompt_step m) (note_prompts n) (0, 0, 0, []) = SOk (ta, td, mx, tools) /\
-    fold_res accepted_step bt tools = SOk tools1 /\
-    map_res (tool_finish m) tools1 = SOk (s_tools s) /\
-    s_mixed s = (if sat_sub ga acc <? mx then sat_sub ga acc else mx) /\
+    fold_res prompt_step (note_prompts n) (0, 0, 0, []) = SOk (ta, td, mx, tools) /\
+    fold_res accepted_step bt (cap_tools (capped ga acc mx) (sort_tools tools)) = SOk tools1 /\
+    s_tools s = map tool_finish tools1 /\
+    s_mixed s = capped ga acc mx /\
     uadd m (s_mixed s) acc = SOk (s_ai_additions s) /\
     s_human s = sat_sub ga acc /\ s_accepted s = acc /\ s_total_add s = ta /\ s_total_del s = td /\
     s_deleted s = gd /\ s_added s = ga.
 Proof.
   unfold stats_from_log.
-  destruct (fold_res (prompt_step m) (note_prompts n) (0, 0, 0, [])) as [[[[ta td] mx] tools]|] eqn:E1;
-    cbn [sbind]; [|discriminate].
-  destruct (fold_res accepted_step bt tools) as [tools1|] eqn:E2; cbn [sbind]; [|discriminate].
+  destruct (fold_res prompt_step (note_prompts n) (0, 0, 0, [])) as [[[[ta td] mx] tools]|] eqn:E1;
+    cbn [sbind]; [|discriminate]. fold (capped ga acc mx).
+  destruct (fold_res accepted_step bt _) as [tools1|] eqn:E2; cbn [sbind]; [|discriminate].
   destruct (uadd m _ acc) as [ai|] eqn:E3; cbn [sbind]; [|discriminate].
-  destruct (map_res (tool_finish m) tools1) as [tools2|] eqn:E4; cbn [sbind]; [|discriminate].
   intros H. inversion H. subst. cbn. exists ta, td, mx, tools, tools1. repeat split; assumption.
+Qed.
+
+Lemma stats_from_log_ok m n ga gd acc bt : ga <= u32_max -> acc <= u32_max ->
+  exists s, stats_from_log m n ga gd acc bt = SOk s.
+Proof.
+  intros B1 B2. unfold stats_from_log.
+  destruct (prompt_fold_fwd (note_prompts n) 0 0 0 [] tools_struct_nil) as (ta & td & mx & tools & E & _);
+    [rewrite sumv_nil; lia|]. rewrite E. cbn [sbind]. fold (capped ga acc mx).
+  destruct (accepted_fold_ok bt (cap_tools (capped ga acc mx) (sort_tools tools))) as (tools1 & E2). rewrite E2. cbn [sbind].
+  destruct (capped_le ga acc mx) as [C1 _]. rewrite sat_sub_spec in C1. rewrite uadd_small by lia. cbn [sbind].
+  eexists. reflexivity.
 Qed.
 
 (* ------------------------------------------------------------------ the statements of C19 *)
@@ -816,195 +1077,205 @@ Lemma prompts_present_conv n :
   olift note_prompts_present n = forallb (fatt_has_prompts (note_prompts n)) (note_atts n).
 Proof. destruct n; reflexivity. Qed.
 
-Lemma accepted_any m ignored n raw mg r :
-  accepted_from_attestations m n (prep_added ignored raw mg) mg = SOk r ->
-  olift note_disjoint n = true -> olift note_paths_unique n = true -> added_count ignored raw <= u32_max ->
-  fst r <= added_count ignored raw /\
-  (mg = false -> fst r = inter_count ignored n raw) /\
-  (olift note_prompts_present n = true -> sumv idN (snd r) = fst r /\ NoDup (keys (snd r))).
+(* everything about accepted_lines_from_attestations that the statements need *)
+Lemma accepted_facts m ignored n raw mg : added_count ignored raw <= u32_max ->
+  exists r, accepted_from_attestations m n (prep_added ignored raw mg) mg = SOk r /\
+    fst r <= added_count ignored raw /\ NoDup (keys (snd r)) /\ sumv idN (snd r) <= fst r /\
+    (olift note_prompts_present n = true -> sumv idN (snd r) = fst r) /\
+    (mg = true -> r = (0, [])) /\
+    (mg = false -> exists G, NoDup G /\ (forall p x, In (p, x) G <-> attributed ignored n raw p x) /\
+                             fst r = N.of_nat (length G)).
 Proof.
-  intros H D U B. destruct mg.
-  - apply accepted_merge in H. subst. cbn [fst snd]. split; [lia|]. split; [discriminate|].
-    intros _. split; [reflexivity|constructor].
-  - pose proof (atts_pure_inter ignored n raw B D) as E. pose proof (inter_le_added ignored n raw U) as LE.
-    apply accepted_spec in H; [|lia]. destruct H as [H1 H2]. rewrite E in H1.
-    split; [lia|]. split; [intros _; assumption|]. rewrite prompts_present_conv. assumption.
+  intros B. destruct mg.
+  - exists (0, []). split; [reflexivity|]. cbn [fst snd]. split; [lia|]. split; [constructor|]. rewrite sumv_nil.
+    split; [lia|]. split; [reflexivity|]. split; [reflexivity|discriminate].
+  - destruct (accepted_fwd m n (prep_added ignored raw false)) as (tot & per & cm & U & E & I & P).
+    { intros p ls. apply prep_sorted. }
+    { rewrite prep_total_len. assumption. }
+    exists (tot, per). split; [assumption|]. destruct I as (OK & MEM & TOT & PER & NP). cbn [fst snd] in *.
+    pose proof (size_le_total _ _ OK) as SZ. rewrite prep_total_len in SZ.
+    split; [lia|]. split; [assumption|]. split; [lia|]. split.
+    + rewrite prompts_present_conv. intros HP. rewrite (P HP) in PER. lia.
+    + split; [discriminate|]. intros _. exists (flat cm). destruct OK as (NK & NC & _).
+      split; [apply flat_NoDup; assumption|]. split.
+      * intros p x. rewrite flat_In, MEM. apply Qatts_attributed.
+      * rewrite flat_length. assumption.
+Qed.
+
+Lemma accepted_det m ignored n raw mg r : added_count ignored raw <= u32_max ->
+  accepted_from_attestations m n (prep_added ignored raw mg) mg = SOk r ->
+  fst r <= added_count ignored raw /\ NoDup (keys (snd r)) /\ sumv idN (snd r) <= fst r /\
+  (olift note_prompts_present n = true -> sumv idN (snd r) = fst r) /\
+  (mg = true -> r = (0, [])) /\
+  (mg = false -> exists G, NoDup G /\ (forall p x, In (p, x) G <-> attributed ignored n raw p x) /\
+                           fst r = N.of_nat (length G)).
+Proof.
+  intros B E. destruct (accepted_facts m ignored n raw mg B) as (r' & E' & F). rewrite E in E'. inversion E'. subst. exact F.
 Qed.
 
 Lemma sum_tools_sumv f ts : sum_tools f ts = sumv f ts.
 Proof. reflexivity. Qed.
 
-Lemma mixed_le_cap ga acc mx : (if sat_sub ga acc <? mx then sat_sub ga acc else mx) <= sat_sub ga acc.
-Proof. destruct (sat_sub ga acc <? mx) eqn:E; lia. Qed.
-
-(* accepted <= added *)
-Lemma accepted_le_added m ignored n raw mg ga gd s :
-  commit_stats m ignored n raw mg ga gd = SOk s ->
-  olift note_disjoint n = true -> olift note_paths_unique n = true ->
-  ga = added_count ignored raw -> ga <= u32_max ->
-  s_accepted s <= s_added s.
+(* the total is a u32 whatever the input *)
+Lemma accepted_le_max m n added mg r : accepted_from_attestations m n added mg = SOk r -> fst r <= u32_max.
 Proof.
-  intros H D U A B. apply commit_stats_inv in H. destruct H as (r & H1 & H2).
-  apply stats_from_log_inv in H2. destruct H2 as (ta & td & mx & tools & tools1 & _ & _ & _ & _ & _ & _ & Hacc & _ & _ & _ & Hadd).
-  assert (added_count ignored raw <= u32_max) as B' by lia.
-  destruct (accepted_any _ _ _ _ _ _ H1 D U B') as [LE _]. lia.
+  unfold accepted_from_attestations. destruct mg; [intros H; inversion H; cbn; unfold u32_max; lia|].
+  destruct n as [n|]; [|intros H; inversion H; cbn; unfold u32_max; lia].
+  destruct (fold_res _ _ _) as [st|] eqn:F; cbn [sbind]; [|discriminate]. intros H. inversion H. subst. cbn [fst].
+  refine (fold_res_inv (fun st : astate => fst (fst st) <= u32_max) _ _ _ _ _ F _); [|cbn; unfold u32_max; lia].
+  clear. intros [[total per] cm] fa st' _ E L. unfold file_step in E.
+  destruct (lookup (f_path fa) added); [|inversion E; subst; assumption].
+  destruct (map_upd _ _ _ cm) as [cm0|]; cbn [sbind] in E; [|discriminate].
+  refine (fold_res_inv (fun st : astate => fst (fst st) <= u32_max) _ _ _ _ _ E L). clear.
+  intros [[total per] cm] e s' _ E L. unfold entry_step in E. cbn [fst] in L.
+  destruct (entry_accepted _ _ _ e) as [ca|]; cbn [sbind] in E; [|discriminate].
+  destruct (map_upd _ _ _ cm) as [cm'|]; cbn [sbind] in E; [|discriminate].
+  destruct (snd ca =? 0); [inversion E; subst; assumption|].
+  destruct (uadd m total (snd ca)) eqn:U; cbn [sbind] in E; [|discriminate]. apply uadd_le in U.
+  destruct (lookup (e_hash e) (n_prompts n)).
+  - destruct (map_upd _ _ _ per); cbn [sbind] in E; [|discriminate]. inversion E. subst. assumption.
+  - inversion E. subst. assumption.
 Qed.
 
-(* human + accepted = max added accepted, whatever the note *)
-Lemma human_plus_accepted_max m ignored n raw mg ga gd s :
-  commit_stats m ignored n raw mg ga gd = SOk s ->
-  s_human s + s_accepted s = N.max (s_added s) (s_accepted s).
+Section Statements.
+  Variables (m : ovf) (ignored : str -> bool) (n : option note) (raw : list (str * list N)) (mg : bool) (ga gd : N) (s : stats).
+  Hypothesis H : commit_stats m ignored n raw mg ga gd = SOk s.
+
+  Lemma added_deleted_passthrough : s_added s = ga /\ s_deleted s = gd.
+  Proof.
+    apply commit_stats_inv in H. destruct H as (r & H1 & H2). apply stats_from_log_inv in H2.
+    destruct H2 as (ta & td & mx & tools & tools1 & _ & _ & _ & _ & _ & _ & _ & _ & _ & Hd & Ha). tauto.
+  Qed.
+
+  Lemma human_plus_accepted_max : s_human s + s_accepted s = N.max (s_added s) (s_accepted s).
+  Proof.
+    apply commit_stats_inv in H. destruct H as (r & H1 & H2). apply stats_from_log_inv in H2.
+    destruct H2 as (ta & td & mx & tools & tools1 & _ & _ & _ & _ & _ & Hh & Hacc & _ & _ & _ & Hadd).
+    rewrite Hh, Hacc, Hadd, sat_sub_spec. lia.
+  Qed.
+
+  Lemma ai_eq_accepted_plus_mixed : ga <= u32_max -> s_ai_additions s = s_accepted s + s_mixed s.
+  Proof.
+    intros B. apply commit_stats_inv in H. destruct H as (r & H1 & H2). apply accepted_le_max in H1.
+    apply stats_from_log_inv in H2.
+    destruct H2 as (ta & td & mx & tools & tools1 & _ & _ & _ & Hm & Hai & _ & Hacc & _).
+    destruct (capped_le ga (fst r) mx) as [C _]. rewrite <- Hm, sat_sub_spec in C. apply uadd_ok in Hai; lia.
+  Qed.
+
+  Lemma mixed_le : s_mixed s <= s_added s - s_accepted s.
+  Proof.
+    apply commit_stats_inv in H. destruct H as (r & H1 & H2). apply stats_from_log_inv in H2.
+    destruct H2 as (ta & td & mx & tools & tools1 & _ & _ & _ & Hm & _ & _ & Hacc & _ & _ & _ & Hadd).
+    destruct (capped_le ga (fst r) mx) as [C _]. rewrite <- Hm, sat_sub_spec in C. lia.
+  Qed.
+
+  (* the per-tool mixed additions sum to the (capped) total: no hypothesis *)
+  Lemma tool_mixed_sums : sum_tools t_mixed (s_tools s) = s_mixed s.
+  Proof.
+    apply commit_stats_inv in H. destruct H as (r & H1 & H2). apply stats_from_log_inv in H2.
+    destruct H2 as (ta & td & mx & tools & tools1 & F1 & F2 & F3 & Hm & _).
+    destruct (prompt_fold_fwd (note_prompts n) 0 0 0 [] tools_struct_nil) as (ta' & td' & mx' & tools' & E & _ & MX & _);
+      [rewrite sumv_nil; lia|]. rewrite F1 in E. inversion E. subst ta' td' mx' tools'.
+    pose proof (accepted_fold_other t_mixed _ _ _ (fun _ _ => eq_refl) eq_refl F2) as Y.
+    destruct (finish_sums tools1) as [M1 _].
+    rewrite sum_tools_sumv, F3, (M1 t_mixed) by reflexivity. rewrite Y, cap_tools_mixed.
+    unfold sumv at 1. rewrite (sumN_perm _ _ _ (sort_tools_perm tools)). fold (sumv t_mixed tools).
+    destruct (capped_le ga (fst r) mx) as [_ C]. lia.
+  Qed.
+
+  Lemma tool_totals_sum :
+    sumP p_total_add (note_prompts n) <= u32_max -> sumP p_total_del (note_prompts n) <= u32_max ->
+    sum_tools t_total_add (s_tools s) = s_total_add s /\ sum_tools t_total_del (s_tools s) = s_total_del s.
+  Proof.
+    intros BA BD. apply commit_stats_inv in H. destruct H as (r & H1 & H2). apply stats_from_log_inv in H2.
+    destruct H2 as (ta & td & mx & tools & tools1 & F1 & F2 & F3 & _ & _ & _ & _ & Hta & Htd & _).
+    destruct (prompt_fold_fwd (note_prompts n) 0 0 0 [] tools_struct_nil) as (ta' & td' & mx' & tools' & E & _ & _ & FA & FD & _);
+      [rewrite sumv_nil; lia|]. rewrite F1 in E. inversion E. subst ta' td' mx' tools'.
+    destruct FA as [_ X]; [lia|reflexivity|]. destruct FD as [_ Y]; [lia|reflexivity|].
+    pose proof (accepted_fold_other t_total_add _ _ _ (fun _ _ => eq_refl) eq_refl F2) as Z1.
+    pose proof (accepted_fold_other t_total_del _ _ _ (fun _ _ => eq_refl) eq_refl F2) as Z2.
+    rewrite (cap_tools_other t_total_add) in Z1 by reflexivity. rewrite (cap_tools_other t_total_del) in Z2 by reflexivity.
+    unfold sumv in Z1 at 2. rewrite (sumN_perm _ _ _ (sort_tools_perm tools)) in Z1.
+    unfold sumv in Z2 at 2. rewrite (sumN_perm _ _ _ (sort_tools_perm tools)) in Z2.
+    destruct (finish_sums tools1) as [M1 _]. unfold sumv in X, Y.
+    split; rewrite sum_tools_sumv, F3; [rewrite (M1 t_total_add) by reflexivity|rewrite (M1 t_total_del) by reflexivity]; lia.
+  Qed.
+
+  (* from here on the diff fits in a u32 *)
+  Hypothesis Hfit : added_count ignored raw <= u32_max.
+
+  Lemma accepted_le_count : s_accepted s <= added_count ignored raw.
+  Proof.
+    apply commit_stats_inv in H. destruct H as (r & H1 & H2). apply stats_from_log_inv in H2.
+    destruct H2 as (ta & td & mx & tools & tools1 & _ & _ & _ & _ & _ & _ & Hacc & _).
+    destruct (accepted_det _ _ _ _ _ _ Hfit H1) as (LE & _). lia.
+  Qed.
+
+  Lemma accepted_is_intersection : mg = false ->
+    exists G, NoDup G /\ (forall p x, In (p, x) G <-> attributed ignored n raw p x) /\
+              s_accepted s = N.of_nat (length G).
+  Proof.
+    intros NM. apply commit_stats_inv in H. destruct H as (r & H1 & H2). apply stats_from_log_inv in H2.
+    destruct H2 as (ta & td & mx & tools & tools1 & _ & _ & _ & _ & _ & _ & Hacc & _).
+    destruct (accepted_det _ _ _ _ _ _ Hfit H1) as (_ & _ & _ & _ & _ & G). rewrite Hacc. apply G. assumption.
+  Qed.
+
+  Lemma tool_accepted_sums : olift note_prompts_present n = true -> sum_tools t_accepted (s_tools s) = s_accepted s.
+  Proof.
+    intros PP. apply commit_stats_inv in H. destruct H as (r & H1 & H2). apply stats_from_log_inv in H2.
+    destruct H2 as (ta & td & mx & tools & tools1 & F1 & F2 & F3 & _ & _ & _ & Hacc & _).
+    destruct (accepted_det _ _ _ _ _ _ Hfit H1) as (_ & NK & _ & EQ & _).
+    destruct (prompt_fold_fwd (note_prompts n) 0 0 0 [] tools_struct_nil) as (ta' & td' & mx' & tools' & E & ST & _);
+      [rewrite sumv_nil; lia|]. rewrite F1 in E. inversion E. subst ta' td' mx' tools'.
+    pose proof (cap_tools_struct (capped ga (fst r) mx) _ (sort_tools_struct _ ST)) as [TS1 TS2].
+    destruct (accepted_fold_spec _ _ _ F2 NK TS1) as (A1 & _); [intros; apply TS2; assumption|].
+    destruct (finish_sums tools1) as [M1 _].
+    rewrite sum_tools_sumv, F3, (M1 t_accepted) by reflexivity. rewrite A1, (sumv_zero t_accepted) by assumption.
+    rewrite (EQ PP). lia.
+  Qed.
+
+  (* from here on git's numstat agrees with the diff *)
+  Hypothesis Hagree : ga = added_count ignored raw.
+
+  Lemma accepted_le_added : s_accepted s <= s_added s.
+  Proof. destruct added_deleted_passthrough as [A _]. pose proof accepted_le_count. lia. Qed.
+
+  Lemma human_plus_accepted : s_human s + s_accepted s = s_added s.
+  Proof. pose proof accepted_le_added. rewrite human_plus_accepted_max. lia. Qed.
+
+  Lemma ai_le_added : s_ai_additions s <= s_added s.
+  Proof.
+    pose proof accepted_le_added. pose proof mixed_le. rewrite ai_eq_accepted_plus_mixed by lia. lia.
+  Qed.
+
+  Lemma tool_ai_sums : olift note_prompts_present n = true ->
+    sum_tools t_ai_additions (s_tools s) = s_ai_additions s /\
+    forall kt, In kt (s_tools s) -> t_ai_additions (snd kt) <= s_added s.
+  Proof.
+    intros PP. pose proof (tool_accepted_sums PP) as TA. pose proof tool_mixed_sums as TM.
+    pose proof accepted_le_added as LE. pose proof mixed_le as ML. pose proof ai_le_added as AL.
+    assert (ga <= u32_max) as B by lia. pose proof (ai_eq_accepted_plus_mixed B) as AI.
+    destruct added_deleted_passthrough as [A _].
+    apply commit_stats_inv in H. destruct H as (r & H1 & H2). apply stats_from_log_inv in H2.
+    destruct H2 as (ta & td & mx & tools & tools1 & F1 & F2 & F3 & _).
+    destruct (finish_sums tools1) as [M1 M2]. rewrite !sum_tools_sumv in *. rewrite F3 in *.
+    rewrite (M1 t_accepted) in TA by reflexivity. rewrite (M1 t_mixed) in TM by reflexivity.
+    assert (sumv t_ai_additions (map tool_finish tools1) = s_ai_additions s) as SUM.
+    { rewrite M2; [lia|]. intros kt Hin.
+      pose proof (sumN_In_le (fun kv => t_accepted (snd kv)) kt tools1 Hin) as L1.
+      pose proof (sumN_In_le (fun kv => t_mixed (snd kv)) kt tools1 Hin) as L2.
+      unfold sumv in *. cbn beta in *. lia. }
+    split; [assumption|]. intros kt Hin.
+    pose proof (sumN_In_le (fun kv => t_ai_additions (snd kv)) kt _ Hin) as L. unfold sumv in SUM. cbn beta in L. lia.
+  Qed.
+End Statements.
+
+(* with a diff that fits in a u32 no addition overflows: git-ai stats does not panic *)
+Lemma never_panics m ignored n raw mg ga gd : added_count ignored raw <= u32_max -> ga <= u32_max ->
+  exists s, commit_stats m ignored n raw mg ga gd = SOk s.
 Proof.
-  intros H. apply commit_stats_inv in H. destruct H as (r & H1 & H2).
-  apply stats_from_log_inv in H2. destruct H2 as (ta & td & mx & tools & tools1 & _ & _ & _ & _ & _ & Hh & Hacc & _ & _ & _ & Hadd).
-  rewrite Hh, Hacc, Hadd, sat_sub_spec. lia.
-Qed.
-
-Lemma human_plus_accepted m ignored n raw mg ga gd s :
-  commit_stats m ignored n raw mg ga gd = SOk s ->
-  olift note_disjoint n = true -> olift note_paths_unique n = true ->
-  ga = added_count ignored raw -> ga <= u32_max ->
-  s_human s + s_accepted s = s_added s.
-Proof.
-  intros H D U A B. pose proof (accepted_le_added _ _ _ _ _ _ _ _ H D U A B).
-  rewrite (human_plus_accepted_max _ _ _ _ _ _ _ _ H). lia.
-Qed.
-
-(* ai_additions = accepted + mixed: only needs that git_added is a u32 *)
-Lemma ai_eq_accepted_plus_mixed m ignored n raw mg ga gd s :
-  commit_stats m ignored n raw mg ga gd = SOk s -> ga <= u32_max ->
-  s_ai_additions s = s_accepted s + s_mixed s.
-Proof.
-  intros H B. apply commit_stats_inv in H. destruct H as (r & H1 & H2).
-  apply accepted_le_max in H1.
-  apply stats_from_log_inv in H2. destruct H2 as (ta & td & mx & tools & tools1 & _ & _ & _ & Hm & Hai & _ & Hacc & _ & _ & _ & _).
-  pose proof (mixed_le_cap ga (fst r) mx) as C. rewrite <- Hm in C. rewrite sat_sub_spec in C.
-  apply uadd_ok in Hai; lia.
-Qed.
-
-Lemma ai_le_added m ignored n raw mg ga gd s :
-  commit_stats m ignored n raw mg ga gd = SOk s ->
-  olift note_disjoint n = true -> olift note_paths_unique n = true ->
-  ga = added_count ignored raw -> ga <= u32_max ->
-  s_ai_additions s <= s_added s.
-Proof.
-  intros H D U A B. pose proof (accepted_le_added _ _ _ _ _ _ _ _ H D U A B) as LE.
-  rewrite (ai_eq_accepted_plus_mixed _ _ _ _ _ _ _ _ H B).
-  apply commit_stats_inv in H. destruct H as (r & H1 & H2).
-  apply stats_from_log_inv in H2. destruct H2 as (ta & td & mx & tools & tools1 & _ & _ & _ & Hm & _ & _ & Hacc & _ & _ & _ & Hadd).
-  pose proof (mixed_le_cap ga (fst r) mx) as C. rewrite <- Hm in C. rewrite sat_sub_spec in C. lia.
-Qed.
-
-Lemma accepted_is_intersection m ignored n raw ga gd s :
-  commit_stats m ignored n raw false ga gd = SOk s ->
-  olift note_disjoint n = true -> olift note_paths_unique n = true ->
-  added_count ignored raw <= u32_max ->
-  s_accepted s = inter_count ignored n raw.
-Proof.
-  intros H D U B. apply commit_stats_inv in H. destruct H as (r & H1 & H2).
-  apply stats_from_log_inv in H2. destruct H2 as (ta & td & mx & tools & tools1 & _ & _ & _ & _ & _ & _ & Hacc & _).
-  destruct (accepted_any _ _ _ _ _ _ H1 D U B) as (_ & E & _). rewrite Hacc. apply E. reflexivity.
-Qed.
-
-Lemma sumv_zero {V} (h : V -> N) ts : (forall kt, In kt ts -> h (snd kt) = 0) -> sumv h ts = 0.
-Proof.
-  induction ts; intros H; [reflexivity|]. rewrite sumv_cons, (H a) by (left; reflexivity).
-  rewrite IHts; [reflexivity|]. intros. apply H. right. assumption.
-Qed.
-
-Lemma accepted_fold_other (h : tool_stats -> N) bt ts ts1 :
-  (forall a t, h (set_accepted a t) = h t) -> h tool_default = 0 ->
-  fold_res accepted_step bt ts = SOk ts1 -> sumv h ts1 = sumv h ts.
-Proof.
-  intros Hs Hd H. refine (fold_res_inv (fun t => sumv h t = sumv h ts) _ _ _ _ _ H eq_refl).
-  clear H. intros t ka t' _ E P. unfold accepted_step in E.
-  destruct (map_upd_facts _ _ _ _ _ E) as (v & v' & Hf & Hsum & _). inversion Hf. subst v'.
-  destruct (Hsum h Hd) as [S1 _]. rewrite Hs in S1. lia.
-Qed.
-
-Lemma tools_struct_nil : tools_struct [].
-Proof. split; [constructor|intros kt []]. Qed.
-
-(* per-tool accepted sums to the total accepted *)
-Lemma tool_accepted_sums m ignored n raw mg ga gd s :
-  commit_stats m ignored n raw mg ga gd = SOk s ->
-  onote_ok n = true -> added_count ignored raw <= u32_max ->
-  sum_tools t_accepted (s_tools s) = s_accepted s.
-Proof.
-  intros H OK B. apply commit_stats_inv in H. destruct H as (r & H1 & H2).
-  assert (olift note_disjoint n = true /\ olift note_paths_unique n = true /\ olift note_prompts_present n = true)
-    as (D & U & PP).
-  { destruct n as [n|]; [|repeat split]. cbn [onote_ok olift] in *. unfold note_ok in OK.
-    apply andb_true_iff in OK. destruct OK as [OK P]. apply andb_true_iff in OK. tauto. }
-  destruct (accepted_any _ _ _ _ _ _ H1 D U B) as (_ & _ & J1). destruct (J1 PP) as [JS JN].
-  apply stats_from_log_inv in H2.
-  destruct H2 as (ta & td & mx & tools & tools1 & F1 & F2 & F3 & _ & _ & _ & Hacc & _).
-  pose proof (prompt_fold_struct _ _ _ _ F1 tools_struct_nil) as [TS1 TS2]. cbn [snd] in TS1, TS2.
-  destruct (accepted_fold_spec _ _ _ F2 JN TS1) as (A1 & _); [intros; apply TS2; assumption|].
-  destruct (map_res_finish _ _ _ F3) as [M1 _].
-  rewrite sum_tools_sumv, (M1 t_accepted) by reflexivity. rewrite A1, (sumv_zero t_accepted tools) by assumption. lia.
-Qed.
-
-Lemma sum_overriden_sumP n : sum_overriden n = sumP p_overriden (note_prompts n).
-Proof. destruct n; reflexivity. Qed.
-
-(* when the cap of the total does not fire, the per-tool mixed / ai_additions sum to the totals too *)
-Lemma tool_mixed_sums_no_cap m ignored n raw mg ga gd s :
-  commit_stats m ignored n raw mg ga gd = SOk s ->
-  onote_ok n = true -> ga = added_count ignored raw -> ga <= u32_max ->
-  Known_C19 n ga (s_accepted s) = false ->
-  sum_tools t_mixed (s_tools s) = s_mixed s /\ sum_tools t_ai_additions (s_tools s) = s_ai_additions s.
-Proof.
-  intros H OK A B K.
-  assert (olift note_disjoint n = true /\ olift note_paths_unique n = true) as (D & U).
-  { destruct n as [n|]; [|repeat split]. cbn [onote_ok olift] in *. unfold note_ok in OK.
-    apply andb_true_iff in OK. destruct OK as [OK P]. apply andb_true_iff in OK. tauto. }
-  pose proof (accepted_le_added _ _ _ _ _ _ _ _ H D U A B) as LE.
-  pose proof (ai_eq_accepted_plus_mixed _ _ _ _ _ _ _ _ H B) as AI.
-  assert (added_count ignored raw <= u32_max) as B' by (subst; assumption).
-  pose proof (tool_accepted_sums _ _ _ _ _ _ _ _ H OK B') as TA.
-  apply commit_stats_inv in H. destruct H as (r & H1 & H2).
-  apply stats_from_log_inv in H2.
-  destruct H2 as (ta & td & mx & tools & tools1 & F1 & F2 & F3 & Hm & _ & _ & Hacc & _ & _ & _ & Hadd).
-  unfold Known_C19 in K. rewrite sum_overriden_sumP, Hacc in K. rewrite Hacc, Hadd in LE.
-  rewrite sat_sub_spec in *.
-  destruct (prompt_fold_mixed _ _ _ _ _ _ F1) as [X1 X2]; [lia|].
-  assert (s_mixed s = mx) as SM by (rewrite Hm; destruct (ga - fst r <? mx) eqn:E; lia).
-  pose proof (accepted_fold_other t_mixed _ _ _ (fun _ _ => eq_refl) eq_refl F2) as Y.
-  destruct (map_res_finish _ _ _ F3) as [M1 M2].
-  rewrite !sum_tools_sumv in *. rewrite (M1 t_accepted) in TA by reflexivity.
-  split.
-  - rewrite ?sum_tools_sumv. rewrite (M1 t_mixed) by reflexivity. lia.
-  - rewrite ?sum_tools_sumv. rewrite M2; [lia|]. intros kt Hin.
-    pose proof (sumN_In_le (fun kv => t_accepted (snd kv)) kt tools1 Hin) as L1.
-    pose proof (sumN_In_le (fun kv => t_mixed (snd kv)) kt tools1 Hin) as L2.
-    unfold sumv in *. cbn beta in *. lia.
-Qed.
-
-(* the generated / deleted counters of the breakdown sum to the totals when the totals fit in a u32 *)
-Lemma tool_totals_sum m ignored n raw mg ga gd s :
-  commit_stats m ignored n raw mg ga gd = SOk s ->
-  sumP p_total_add (note_prompts n) <= u32_max -> sumP p_total_del (note_prompts n) <= u32_max ->
-  sum_tools t_total_add (s_tools s) = s_total_add s /\ sum_tools t_total_del (s_tools s) = s_total_del s.
-Proof.
-  intros H BA BD. apply commit_stats_inv in H. destruct H as (r & H1 & H2).
-  apply stats_from_log_inv in H2.
-  destruct H2 as (ta & td & mx & tools & tools1 & F1 & F2 & F3 & _ & _ & _ & _ & Hta & Htd & _).
-  destruct (prompt_fold_total_add _ _ _ _ _ _ F1 BA) as [_ X].
-  destruct (prompt_fold_total_del _ _ _ _ _ _ F1 BD) as [_ Y].
-  pose proof (accepted_fold_other t_total_add _ _ _ (fun _ _ => eq_refl) eq_refl F2) as Z1.
-  pose proof (accepted_fold_other t_total_del _ _ _ (fun _ _ => eq_refl) eq_refl F2) as Z2.
-  destruct (map_res_finish _ _ _ F3) as [M1 _].
-  split; rewrite sum_tools_sumv; [rewrite (M1 t_total_add) by reflexivity|rewrite (M1 t_total_del) by reflexivity]; lia.
-Qed.
-
-(* git_added / git_deleted are passed through *)
-Lemma added_deleted_passthrough m ignored n raw mg ga gd s :
-  commit_stats m ignored n raw mg ga gd = SOk s -> s_added s = ga /\ s_deleted s = gd.
-Proof.
-  intros H. apply commit_stats_inv in H. destruct H as (r & H1 & H2).
-  apply stats_from_log_inv in H2.
-  destruct H2 as (ta & td & mx & tools & tools1 & _ & _ & _ & _ & _ & _ & _ & _ & _ & Hd & Ha). tauto.
+  intros B1 B2. unfold commit_stats. destruct (accepted_facts m ignored n raw mg B1) as (r & E & LE & _).
+  rewrite E. cbn [sbind]. apply stats_from_log_ok; lia.
 Qed.
 
 (* a merge commit: the short cut of the code, whatever the note says *)
@@ -1012,14 +1283,16 @@ Lemma merge_accepted_zero m ignored n raw ga gd s :
   commit_stats m ignored n raw true ga gd = SOk s ->
   s_accepted s = 0 /\ s_human s = s_added s /\ sum_tools t_accepted (s_tools s) = 0.
 Proof.
-  intros H. apply commit_stats_inv in H. destruct H as (r & H1 & H2). apply accepted_merge in H1. subst r.
+  intros H. apply commit_stats_inv in H. destruct H as (r & H1 & H2). inversion H1. subst r.
   apply stats_from_log_inv in H2. cbn [fst snd] in H2.
   destruct H2 as (ta & td & mx & tools & tools1 & F1 & F2 & F3 & _ & _ & Hh & Hacc & _ & _ & _ & Hadd).
   split; [assumption|]. split; [rewrite Hh, Hadd, sat_sub_spec; lia|].
   cbn [fold_res] in F2. inversion F2. subst tools1.
-  pose proof (prompt_fold_struct _ _ _ _ F1 tools_struct_nil) as [_ TS2]. cbn [snd] in TS2.
-  destruct (map_res_finish _ _ _ F3) as [M1 _].
-  rewrite sum_tools_sumv, (M1 t_accepted) by reflexivity. apply sumv_zero. assumption.
+  destruct (prompt_fold_fwd (note_prompts n) 0 0 0 [] tools_struct_nil) as (ta' & td' & mx' & tools' & E & ST & _);
+    [rewrite sumv_nil; lia|]. rewrite F1 in E. inversion E. subst ta' td' mx' tools'.
+  pose proof (cap_tools_struct (capped ga 0 mx) _ (sort_tools_struct _ ST)) as [_ TS2].
+  destruct (finish_sums (cap_tools (capped ga 0 mx) (sort_tools tools))) as [M1 _].
+  rewrite sum_tools_sumv, F3, (M1 t_accepted) by reflexivity. apply sumv_zero. assumption.
 Qed.
 
 (* ------------------------------------------------------------------ the numstat loop on what git prints *)
@@ -1102,11 +1375,10 @@ Proof.
     destruct (ignored p).
     + rewrite !N.add_0_r. destruct st; reflexivity.
     + destruct H4 as [La Ld]. rewrite !parse_u32_print by assumption.
-      rewrite (uadd_small m (fst st) a BA). cbn [sbind].
       assert (str_eqb (print_N d) [c_dash] = false) as NE.
       { rewrite E'. cbn [str_eqb]. destruct (c' =? c_dash) eqn:X; [|reflexivity].
         apply N.eqb_eq in X. subst c'. discriminate. }
-      rewrite NE, (uadd_small m (snd st) d BD). reflexivity.
+      rewrite NE, (sat_add_small (fst st) a BA), (sat_add_small (snd st) d BD). reflexivity.
   - unfold numstat_line. cbn [forallb]. change (is_ws c_dash) with false. cbn [andb].
     change (is_digit c_dash) with false. cbn [negb]. rewrite !N.add_0_r. destruct st; reflexivity.
 Qed.
@@ -1133,6 +1405,18 @@ Proof.
   rewrite numstat_fold by (try assumption; cbn [fst snd]; lia). reflexivity.
 Qed.
 
+
+Lemma numstat_never_panics m ignored text : exists r, parse_numstat m ignored text = SOk r.
+Proof.
+  unfold parse_numstat. generalize (0, 0). induction (lines text) as [|l ls]; intros st; cbn [fold_res]; [eexists; reflexivity|].
+  assert (exists st', numstat_line m ignored st l = SOk st') as (st' & E).
+  { unfold numstat_line. destruct (forallb is_ws l); [eexists; reflexivity|].
+    destruct (negb _); [eexists; reflexivity|].
+    destruct (split_on c_tab l) as [|p0 [|p1 [|p2 r]]]; try (eexists; reflexivity).
+    destruct (ignored p2); eexists; reflexivity. }
+  rewrite E. cbn [sbind]. apply IHls.
+Qed.
+
 (* ------------------------------------------------------------------ witnesses *)
 
 Definition no_ignore : str -> bool := fun _ => false.
@@ -1142,105 +1426,62 @@ Definition w_h2 : str := [104; 50].
 Definition w_prompt (ov : N) : prompt := mkPrompt [116] [109] 1 0 ov.
 Definition w_raw : list (str * list N) := [(w_f, [1])].
 
-(* K1: one accepted line, a prompt with overriden_lines = 5 *)
+(* the witnesses of the former findings K1, K2 (two forms) and K4: regression cases now *)
 Definition wit_cap : option note :=
   Some (mkNote [mkFatt w_f [mkEntry w_h1 [Single 1]]] [(w_h1, w_prompt 5)]).
-(* two sessions list line 1 *)
 Definition wit_overlap : option note :=
   Some (mkNote [mkFatt w_f [mkEntry w_h1 [Single 1]; mkEntry w_h2 [Range 1 1]]]
-               [(w_h1, w_prompt 0); (w_h2, w_prompt 0)]).
-(* two sections for the same file *)
+               [(w_h1, w_prompt 0); (w_h2, mkPrompt [117] [109] 1 0 0)]).
 Definition wit_dup : option note :=
   Some (mkNote [mkFatt w_f [mkEntry w_h1 [Single 1]]; mkFatt w_f [mkEntry w_h1 [Single 1]]] [(w_h1, w_prompt 0)]).
-(* no prompt record for the session *)
-Definition wit_noprompt : option note := Some (mkNote [mkFatt w_f [mkEntry w_h1 [Single 1]]] []).
-(* overriden_lines = u32::MAX *)
 Definition wit_ovf : option note :=
-  Some (mkNote [mkFatt w_f [mkEntry w_h1 [Single 1]]] [(w_h1, w_prompt u32_max)]).
+  Some (mkNote [mkFatt w_f [mkEntry w_h1 [Single 1]]] [(w_h1, w_prompt u32_max); (w_h2, w_prompt u32_max)]).
+(* no prompt record for the session: still open (K3) *)
+Definition wit_noprompt : option note := Some (mkNote [mkFatt w_f [mkEntry w_h1 [Single 1]]] []).
 
-Definition stats_of (r : sres stats) : stats :=
-  match r with SOk s => s | SPanic => mkStats 0 0 0 0 0 0 0 0 [] end.
-Definition is_ok {A} (r : sres A) : bool := match r with SOk _ => true | SPanic => false end.
+Definition w_key : str := [116; 58; 58; 109].
 
-Lemma tool_mixed_refuted :
-  exists n raw ga, onote_ok n = true /\ ga = added_count no_ignore raw /\ ga <= u32_max /\
-    forall m, exists s, commit_stats m no_ignore n raw false ga 0 = SOk s /\
-      Known_C19 n ga (s_accepted s) = true /\
-      sum_tools t_mixed (s_tools s) <> s_mixed s /\
-      sum_tools t_ai_additions (s_tools s) <> s_ai_additions s /\
-      s_added s < sum_tools t_ai_additions (s_tools s).
-Proof.
-  exists wit_cap, w_raw, 1. split; [reflexivity|]. split; [reflexivity|]. split; [unfold u32_max; lia|].
-  intros m. exists (stats_of (commit_stats m no_ignore wit_cap w_raw false 1 0)).
-  destruct m; vm_compute; repeat split; discriminate.
-Qed.
-
-Lemma overlap_double_count_refuted :
-  exists n raw ga, olift note_disjoint n = false /\ olift note_paths_unique n = true /\
-    olift note_prompts_present n = true /\ ga = added_count no_ignore raw /\ ga <= u32_max /\
-    forall m, exists s, commit_stats m no_ignore n raw false ga 0 = SOk s /\
-      s_added s < s_accepted s /\ s_human s + s_accepted s <> s_added s /\
-      s_added s < s_ai_additions s /\ s_accepted s <> inter_count no_ignore n raw.
-Proof.
-  exists wit_overlap, w_raw, 1. repeat (split; [reflexivity || (unfold u32_max; lia)|]).
-  intros m. exists (stats_of (commit_stats m no_ignore wit_overlap w_raw false 1 0)).
-  destruct m; vm_compute; repeat split; discriminate.
-Qed.
-
-Lemma duplicate_section_refuted :
-  exists n raw ga, olift note_disjoint n = true /\ olift note_paths_unique n = false /\
-    olift note_prompts_present n = true /\ ga = added_count no_ignore raw /\ ga <= u32_max /\
-    forall m, exists s, commit_stats m no_ignore n raw false ga 0 = SOk s /\
-      s_added s < s_accepted s /\ s_human s + s_accepted s <> s_added s /\ s_added s < s_ai_additions s.
-Proof.
-  exists wit_dup, w_raw, 1. repeat (split; [reflexivity || (unfold u32_max; lia)|]).
-  intros m. exists (stats_of (commit_stats m no_ignore wit_dup w_raw false 1 0)).
-  destruct m; vm_compute; repeat split; discriminate.
-Qed.
+Lemma regressions : forall m,
+  (* K1: overriden_lines = 5 on a one-line commit: the breakdown is capped like the total *)
+  commit_stats m no_ignore wit_cap w_raw false 1 0
+    = SOk (mkStats 0 0 1 1 1 0 0 1 [(w_key, mkTool 1 0 1 1 0)]) /\
+  (* K2: the line listed by two sessions counts once, for the first one *)
+  commit_stats m no_ignore wit_overlap w_raw false 1 0
+    = SOk (mkStats 0 0 1 1 2 0 0 1 [(w_key, mkTool 1 0 1 1 0); ([117; 58; 58; 109], mkTool 0 0 0 1 0)]) /\
+  (* K2: two sections for one file *)
+  commit_stats m no_ignore wit_dup w_raw false 1 0
+    = SOk (mkStats 0 0 1 1 1 0 0 1 [(w_key, mkTool 1 0 1 1 0)]) /\
+  (* K4: counters at u32::MAX saturate, nothing panics *)
+  commit_stats m no_ignore wit_ovf w_raw false 1 0
+    = SOk (mkStats 0 0 1 1 2 0 0 1 [(w_key, mkTool 1 0 1 2 0)]).
+Proof. intros m. destruct m; vm_compute; repeat split. Qed.
 
 Lemma missing_prompt_refuted :
-  exists n raw ga, olift note_disjoint n = true /\ olift note_paths_unique n = true /\
-    olift note_prompts_present n = false /\ ga = added_count no_ignore raw /\ ga <= u32_max /\
+  exists n raw ga, olift note_prompts_present n = false /\ ga = added_count no_ignore raw /\ ga <= u32_max /\
     forall m, exists s, commit_stats m no_ignore n raw false ga 0 = SOk s /\
       sum_tools t_accepted (s_tools s) <> s_accepted s.
 Proof.
-  exists wit_noprompt, w_raw, 1. repeat (split; [reflexivity || (unfold u32_max; lia)|]).
-  intros m. exists (stats_of (commit_stats m no_ignore wit_noprompt w_raw false 1 0)).
-  destruct m; vm_compute; repeat split; discriminate.
+  exists wit_noprompt, w_raw, 1. split; [reflexivity|]. split; [reflexivity|]. split; [unfold u32_max; lia|].
+  intros m. exists (mkStats 0 0 1 1 0 0 0 1 []). destruct m; vm_compute; split; [reflexivity|discriminate|reflexivity|discriminate].
 Qed.
 
-(* a prompt counter near u32::MAX: a build with overflow checks panics, a wrapping build
-   reports a per-tool ai_additions that is not accepted + mixed *)
-Lemma overflow_refuted :
-  exists n raw ga, onote_ok n = true /\ ga = added_count no_ignore raw /\ ga <= u32_max /\
-    commit_stats Checked no_ignore n raw false ga 0 = SPanic /\
-    exists s, commit_stats Wrapping no_ignore n raw false ga 0 = SOk s /\
-      exists kt, In kt (s_tools s) /\ t_ai_additions (snd kt) <> t_accepted (snd kt) + t_mixed (snd kt).
-Proof.
-  exists wit_ovf, w_raw, 1. split; [reflexivity|]. split; [reflexivity|]. split; [unfold u32_max; lia|].
-  split; [vm_compute; reflexivity|].
-  exists (stats_of (commit_stats Wrapping no_ignore wit_ovf w_raw false 1 0)). split; [vm_compute; reflexivity|].
-  eexists. split; [vm_compute; left; reflexivity|]. vm_compute. discriminate.
-Qed.
-
-(* non-vacuity: a commit with two files, two sessions, an ignored file and a human line, for which
-   every hypothesis holds and every number is non-trivial *)
+(* non-vacuity: a commit with two files (one ignored), two sessions of two tools, a line listed by
+   both sessions, a human line, a binary file and an overridden line *)
 Definition nv_lock : str := [108].
 Definition nv_ignore (p : str) : bool := str_eqb p nv_lock.
 Definition nv_note : option note :=
-  Some (mkNote [mkFatt w_f [mkEntry w_h1 [Range 2 3]; mkEntry w_h2 [Single 5]];
+  Some (mkNote [mkFatt w_f [mkEntry w_h1 [Range 2 3]; mkEntry w_h2 [Single 5; Single 3]];
                 mkFatt nv_lock [mkEntry w_h1 [Range 1 9]]]
                [(w_h1, w_prompt 1); (w_h2, mkPrompt [117] [109] 4 2 0)]).
 Definition nv_raw : list (str * list N) := [(w_f, [5; 2; 3; 3; 7; 8]); (nv_lock, [1; 2; 3])].
 Definition nv_text : str := numstat_text [NumRow 5 1 w_f; NumRow 3 0 nv_lock; BinRow [98]].
 
 Lemma nonvacuous :
-  onote_ok nv_note = true /\ added_count nv_ignore nv_raw = 5 /\ inter_count nv_ignore nv_note nv_raw = 3 /\
-  Known_C19 nv_note 5 3 = false /\
+  olift note_prompts_present nv_note = true /\ added_count nv_ignore nv_raw = 5 /\ inter_count nv_ignore nv_note nv_raw = 3 /\
   forall m, stats_for_commit m nv_ignore nv_text nv_note nv_raw false
     = SOk (mkStats 2 1 4 3 5 2 1 5
-             [([116; 58; 58; 109], mkTool 3 1 2 1 0); ([117; 58; 58; 109], mkTool 1 0 1 4 2)]).
+             [(w_key, mkTool 3 1 2 1 0); ([117; 58; 58; 109], mkTool 1 0 1 4 2)]).
 Proof.
   split; [vm_compute; reflexivity|]. split; [vm_compute; reflexivity|]. split; [vm_compute; reflexivity|].
-  split; [vm_compute; reflexivity|]. intros m. destruct m; vm_compute; reflexivity.
+  intros m. destruct m; vm_compute; reflexivity.
 Qed.
